@@ -3,7 +3,14 @@
 Three parties per generated case: the real menpo transform and its `pseudoinverse()`; the property oracle
 (round trips from both sides, honesty of the inverse object, exchanged end points, reverse-fit equality and exact
 landmark return for the interpolating warps — all evaluated on the real objects, independent of the Lean model);
-the Lean model (`Core/C04Homog.lean`, `Core/C04Warp.lean`) fed with the same inputs as exact rationals.
+the Lean model (`Core/C04Homog.lean`, `Core/C04Warp.lean`, `Core/C04Ops.lean`, `Core/C04Mesh.lean`) fed with the same
+inputs as exact rationals.
+
+Case kinds: hom (one family object, fresh or with a previous life; also `pseudoinverse_vector`), homops / pwaops / tpsops
+(one live object and a list of mutators and pseudoinverse() queries, compared query by query with `Live.run` of the
+model), pwa (jittered meshes, sources and targets as every shape class), pwax (float-exact lattice meshes: vertices, edge
+points, points just outside, index_alpha_beta), tps, tcoords.  Tables regenerated from the live classes on every run:
+`harness/extract_c04.py` -> `Generated/C04Tables.lean`, obligations in `GenProps/C04.lean`.
 """
 import json
 from fractions import Fraction
@@ -15,42 +22,89 @@ from . import common
 PROP = "C04"
 INFO = dict(
     technique="Lean 4 proof (exact matrix inverse in every dimension tied to Mathlib's nonsingular inverse; class "
-              "invariants of all 12 family classes preserved by the coded closed forms; barycentric round trip for "
-              "piecewise affine maps; interpolation of the thin-plate system) + model/implementation correspondence "
-              "on generated transforms + independent round-trip oracle on the real objects",
+              "invariants of all 12 family classes preserved by the coded closed forms and by in-place composition; "
+              "invariant by induction over operation lists: pseudoinverse() of an object with any previous life inverts "
+              "the current map and exchanges the current end points; barycentric round trip for piecewise affine maps "
+              "with the consistency hypothesis decided by a proved, executable separating-line certificate; "
+              "interpolation of the thin-plate system; the truncated-SVD solve characterised from numpy's raw SVD "
+              "contract; the two kernel classes define the same warp) + 4 `decide` obligations over tables regenerated "
+              "from the live classes on every run (method resolution of pseudoinverse / _h_matrix_pseudoinverse / "
+              "has_true_inverse, the set of family classes, the instance attributes pseudoinverse() writes: none) + "
+              "model/implementation correspondence on generated transforms and on whole operation sequences + "
+              "independent round-trip oracle on the real objects",
     level_text="Theorems over an executable model of pseudoinverse(): for every homogeneous-family class (closed "
                "forms of Translation/UniformScale/NonUniformScale/Rotation, matrix inverse for the others, "
-               "HomogFamilyAlignment for the alignments) and every dimension the result has the same class, carries "
-               "exactly the inverse matrix, is an honest member of the class, has source and target exchanged and "
-               "undoes apply from both sides on every point of the domain; the piecewise-affine inverse (same "
-               "trilist on the target points) undoes apply on the whole source and target domain of any "
-               "non-degenerate consistent mesh and returns every landmark; a thin-plate spline whose kernel is "
-               "centred on its source points interpolates, so the reverse fit returns every landmark, for any "
-               "radial function; the inverse as coded before the fix (kernel re-used) is refuted by a witness.  "
-               "The model is tied to /repo by running the real classes on generated members of every class, "
-               "2-D and 3-D, and diffing inverse matrices, class names, forward and backward images against the "
-               "Lean driver; the oracle decides the property on the real objects.",
-    level_note="Trusted: Lean kernel; axioms propext/Classical.choice/Quot.sound; the Python harness and the driver's "
-               "parser.  Library contracts (validated numerically on every case by the oracle's round trips): "
-               "np.linalg.inv returns B with A·B = 1 (then B is the model's inverse: inv_contract_unique); the "
-               "truncated-SVD solve of the spline system returns (L^-1)^T·Y when every singular value exceeds the "
-               "floor (modelled by a checked exact solve); the radial function values r^2 log r are taken from the "
-               "real kernel classes (the theorems hold for every radial function).  Float rounding is not modelled "
-               "(exact rationals vs float64 compared to 1e-9 relative).",
-    rule="one case = one transform object (class, dimension, parameters / landmark sets) with its probe points; "
-         "distinct = distinct (class, parameters, points); non-trivial = not the identity map",
-    partial=["PWA theorem assumes a mesh whose target triangles agree wherever they overlap (true of triangulations: "
-             "pwa_edge_continuity proves agreement on a shared edge for the orientation-consistent vertex order; the "
-             "general no-overlap geometry of a triangulation is a hypothesis, instantiated on an example mesh)",
-             "points exactly on triangle edges are covered by the theorems only: the float implementation is "
-             "exercised on strictly interior points and on the landmarks themselves (rounding may place an edge "
-             "point outside every triangle)",
-             "TPS: solvability of the linear system (general position) is a hypothesis; min_singular_val truncation "
-             "(rank-deficient landmark sets) is outside the property's quantifier and not modelled"],
+               "HomogFamilyAlignment for the alignments; which class supplies the method is a regenerated table the "
+               "model is assembled from) and every dimension the result has the same class, carries exactly the "
+               "inverse matrix, is an honest member of the class, has source and target exchanged, undoes apply from "
+               "both sides on every point of the domain, and its own pseudoinverse is the original object.  Objects "
+               "with a history: over EVERY list of set_target / from_vector_inplace / set_rotation_matrix / "
+               "compose_before_inplace / compose_after_inplace / compose_after_from_vector_inplace / pseudoinverse() "
+               "calls (every class is proved closed under its in-place compositions; set_h_matrix, which every class "
+               "refuses, is exercised as the no-op it must be) each pseudoinverse() inverts the "
+               "CURRENT map from both sides and has the CURRENT source and target exchanged; the frame condition this "
+               "needs - pseudoinverse() writes no instance attribute - is measured on live objects of all 15 classes "
+               "on every run and is a `decide` obligation; a memoising pseudoinverse is refuted by a three-step "
+               "history.  The same over set_target histories for piecewise affine warps and thin plate splines.  The "
+               "piecewise-affine inverse (source trilist on the target points, whatever shape class and triangulation "
+               "the target object carries) undoes apply on the whole source and target domain - interior points, "
+               "points on shared edges and vertices, whichever containing triangle the last-containing rule picks - of "
+               "every mesh that passes an executable certificate (non-degenerate triangles; any two triangles "
+               "separated by a line whose contact vertices are shared with equal images), proved sound and run by "
+               "the driver on every generated mesh in both directions; index_alpha_beta reports the triangle apply "
+               "uses.  A thin-plate spline whose kernel is centred on its source points interpolates, so the reverse "
+               "fit returns every landmark, for any radial function; the coefficients `inv_l . y^T` of "
+               "_build_coefficients solve the transposed system on the kept right-singular subspace for any factors "
+               "meeting the SVD contract, hence exactly when nothing is truncated or the data is attainable; "
+               "R2LogR2RBF = 2 R2LogRRBF define the same warp; the inverse as coded before the fix (kernel re-used) "
+               "is refuted by a witness.  The model is tied to /repo by the regenerated tables and by running the "
+               "real classes on generated members of every class, 2-D and 3-D (matrices as C / Fortran / strided / "
+               "transposed-view / read-only / int64 / float32 arrays, unimodular integer matrices with condition "
+               "numbers up to 1e6, landmark sets as every one of the 8 shape classes and as int64 arrays, PWA sources "
+               "as meshes or as point sets triangulated by the constructor, targets carrying triangulations of their "
+               "own), fresh and with previous lives, and diffing inverse matrices, class names, end points, forward "
+               "and backward images, whole operation sequences query by query, index_alpha_beta and the containment "
+               "error mask on float-exact lattice meshes (bit-exact round trip on vertices, edge points and points "
+               "just outside), pseudoinverse_vector, and the coded solve on numpy's SVD factors against the Lean "
+               "driver; the oracle decides the property on the real objects.",
+    level_note="Trusted: Lean kernel; axioms propext/Classical.choice/Quot.sound; the Python harness, "
+               "harness/extract_c04.py (table extraction: MRO walk over the live classes, common.attr_writes on live "
+               "objects) and the driver's parser.  Library contracts (validated numerically on every case): "
+               "np.linalg.inv returns B with A.B = 1 (then B is the model's inverse: inv_contract_unique); "
+               "np.linalg.svd returns U.diag(s).Vh = L with orthonormal factors and sorted s (re-checked on the system "
+               "of every generated spline; truncSVD_kept / truncSVD_full / tps_truncSVD_interpolates derive the rest, "
+               "so the former contract 'the truncated-SVD solve returns (L^-1)^T.Y' is a theorem); scipy Delaunay "
+               "(sources that are not meshes) is taken as given: the model receives the trilist the object holds; the "
+               "radial function values r^2 log r come from the real kernel classes (the theorems hold for every radial "
+               "function; log r^2 = 2 log r is checked numerically).  The matrices installed by set_target / "
+               "from_vector_inplace are taken from the real object (the fit is C07's subject, the parametrisation "
+               "C05's); in-place compositions are computed by the model.  The triangulation certificate is sufficient, "
+               "not necessary (15 candidate lines per pair); the evidence counts the generated meshes that pass it "
+               "(`pwa:certified-triangulation:1`; all of them on every seed swept so far - a mesh that did not would "
+               "only be covered by the hypothesis form of the theorems and by the oracle).  Float rounding is not modelled (exact rationals vs float64 compared to 1e-9 relative, "
+               "single-precision parameters to 1e-4 with condition number <= 200), except on the lattice meshes "
+               "where every intermediate is exact and the comparison is bit-exact.",
+    rule="one case = one transform object (class, dimension, parameters / landmark sets, array form, shape classes) with "
+         "its probe points, or one live object with an operation list (mutators and pseudoinverse() queries); distinct "
+         "= distinct (class, parameters, points, operations); non-trivial = not the identity map",
+    partial=["TPS: solvability of the reverse system is a hypothesis of tps_interpolates / tps_pinvFixed_reverse_fit "
+             "(it cannot be derived for an abstract radial function; with the SVD contract it becomes 'every singular "
+             "value is non-zero and kept', tps_truncSVD_interpolates); rank-deficient landmark sets, where "
+             "min_singular_val truncates, are outside the property's quantifier: the algebraic statements "
+             "truncSVD_kept / truncSVD_attainable cover them, the generator does not produce them"],
     assumptions=["inputs are in general position with bounded condition number, as the property's quantifier states "
                  "(generator enforces it with exact arithmetic on the inputs)"],
-    design_ref="DESIGN.md section 6, C04; section 7 item 1")
-IMPORTS = ["MenpoModel.Props.C04"]
+    design_ref="DESIGN.md section 6, C04; section 7 item 1; section 14")
+IMPORTS = ["MenpoModel.Props.C04", "MenpoModel.GenProps.C04"]
+GEN_THEOREMS = [
+    "MenpoModel.GenProps.C04.dispatch_ok",
+    "MenpoModel.GenProps.C04.family_ok",
+    "MenpoModel.GenProps.C04.pinvWrites_ok",
+    "MenpoModel.GenProps.C04.no_writes_live",
+    "MenpoModel.GenProps.C04.hom_ops_pinv_sound_live",
+    "MenpoModel.GenProps.C04.tps_ops_pinv_sound_live",
+    "MenpoModel.GenProps.C04.pwa_ops_pinv_sound_live",
+]
 THEOREMS = [
     "MenpoModel.C04.inv_two_sided",
     "MenpoModel.C04.inv_contract_unique",
@@ -72,7 +126,35 @@ THEOREMS = [
     "MenpoModel.C04.tps_fit_interpolates",
     "MenpoModel.C04.tps_pinvCoded_refuted",
     "MenpoModel.C04.tps_pinvFixed_example",
-]
+    # objects with a history (Props/C04Ops.lean)
+    "MenpoModel.C04.run_no_writes",
+    "MenpoModel.C04.run_no_writes_last",
+    "MenpoModel.C04.honest_mul",
+    "MenpoModel.C04.good_act",
+    "MenpoModel.C04.hom_ops_pinv_sound",
+    "MenpoModel.C04.source_invariant",
+    "MenpoModel.C04.target_after_set",
+    "MenpoModel.C04.memo_refuted",
+    "MenpoModel.C04.pinv_involutive",
+    "MenpoModel.C04.pinv_after_compose",
+    "MenpoModel.C04.tps_ops_pinv_sound",
+    "MenpoModel.C04.pwa_ops_pinv_sound",
+    "MenpoModel.C04.pwa_ops_roundtrip_certified",
+    # the triangulation certificate (Props/C04Mesh.lean)
+    "MenpoModel.C04.piece_affine",
+    "MenpoModel.C04.sepOK_agree",
+    "MenpoModel.C04.certified_sound",
+    "MenpoModel.C04.pwa_roundtrip_certified",
+    "MenpoModel.C04.indexAB_lookup",
+    # the spline solve and the kernel classes (Props/C04Tps.lean)
+    "MenpoModel.C04.truncSVD_kept",
+    "MenpoModel.C04.truncSVD_full",
+    "MenpoModel.C04.truncSVD_attainable",
+    "MenpoModel.C04.tps_interpolates_of_solution",
+    "MenpoModel.C04.tps_truncSVD_interpolates",
+    "MenpoModel.C04.tps_truncSVD_attainable_interpolates",
+    "MenpoModel.C04.tps_kernel_scale",
+] + GEN_THEOREMS
 
 FAMILY = ["Homogeneous", "Affine", "Similarity", "Rotation", "Translation", "UniformScale", "NonUniformScale",
           "AlignmentAffine", "AlignmentSimilarity", "AlignmentRotation", "AlignmentTranslation",
@@ -144,6 +226,24 @@ def int_matrix(rng, d, lo=-3, hi=3, detmin=1, detmax=12):
             return m
 
 
+def unimodular(rng, n):
+    """an integer matrix of determinant +-1 built from elementary shears, row swaps and sign flips: entries up to a few
+    hundred, an exact integer inverse with entries as large - close to singular in floating point terms (condition
+    numbers 1e3 .. 1e6), yet a perfectly legal, exactly invertible parameter value"""
+    m = [[int(i == j) for j in range(n)] for i in range(n)]
+    for _ in range(rng.randint(n + 1, 2 * n + 2)):
+        i, j = rng.sample(range(n), 2)
+        k = rng.choice([-3, -2, -1, 1, 2, 3])
+        u = rng.random()
+        if u < 0.75:
+            m[i] = [a + k * b for a, b in zip(m[i], m[j])]
+        elif u < 0.9:
+            m[i], m[j] = m[j], m[i]
+        else:
+            m[i] = [-a for a in m[i]]
+    return m
+
+
 def rat_rotation(rng, d):
     """exactly orthogonal rational rotation (as Fractions), det +1"""
     if d == 2:
@@ -176,6 +276,77 @@ def general_cloud(rng, d, n):
         g = [[sum(r[i] * r[j] for r in a) for j in range(d + 1)] for i in range(d + 1)]
         if abs(fdet(g)) >= 50:
             return pts
+
+
+# ----------------------------------------------------------------------------- end points as every shape class
+
+SHAPE_CLASSES = ["PointCloud", "TriMesh", "ColouredTriMesh", "TexturedTriMesh", "PointUndirectedGraph",
+                 "PointDirectedGraph", "PointTree", "LabelledPointUndirectedGraph"]
+
+
+def gen_shape_spec(rng, n, d, cls=None, trilist=None):
+    """JSON-able description of the extra structure (triangles, edges, colours, labels ...) a landmark set of `n`
+    points is dressed in.  An alignment's fit must depend on the points only, so every clause of the property has
+    to hold whatever shape class carries them."""
+    cls = cls or rng.choice(SHAPE_CLASSES)
+    spec = _gen_shape_spec(rng, n, d, cls, trilist)
+    if rng.random() < 0.25:
+        spec["dtype"] = "int64"        # integer-typed landmark arrays (used only where every coordinate is integral)
+    return spec
+
+
+def _gen_shape_spec(rng, n, d, cls, trilist):
+    if cls == "PointCloud" or n < 3:
+        return {"cls": "PointCloud"}
+    if cls in ("TriMesh", "ColouredTriMesh", "TexturedTriMesh"):
+        if trilist is None:
+            trilist = []
+            for _ in range(rng.randint(1, n)):
+                trilist.append(rng.sample(range(n), 3))
+        return {"cls": cls, "trilist": [list(map(int, t)) for t in trilist]}
+    parent = [rng.randrange(i) for i in range(1, n)]          # a random tree rooted in vertex 0
+    edges = [[parent[i - 1], i] for i in range(1, n)]
+    if cls in ("PointUndirectedGraph", "PointDirectedGraph", "LabelledPointUndirectedGraph"):
+        extra = [sorted(rng.sample(range(n), 2)) for _ in range(rng.randint(0, 2))]
+        edges = edges + [e for e in extra if e not in edges and e[::-1] not in edges]
+    spec = {"cls": cls, "edges": edges}
+    if cls == "LabelledPointUndirectedGraph":
+        spec["split"] = rng.randint(1, n - 1)
+    return spec
+
+
+def make_shape(spec, pts):
+    """the menpo shape object described by `spec` on the points `pts`"""
+    import menpo.shape as S
+    pts = np.array(pts, dtype=float)
+    if (spec or {}).get("dtype") == "int64" and np.array_equal(pts, np.round(pts)):
+        pts = pts.astype(np.int64)
+    n = len(pts)
+    cls = (spec or {}).get("cls", "PointCloud")
+    if cls == "PointCloud":
+        return S.PointCloud(pts)
+    if cls in ("TriMesh", "ColouredTriMesh", "TexturedTriMesh"):
+        tl = spec.get("trilist")
+        tl = None if tl is None else np.array(tl, dtype=np.int64).reshape(-1, 3)      # None: the mesh's own Delaunay
+        if cls == "TriMesh":
+            return S.TriMesh(pts, tl)
+        if cls == "ColouredTriMesh":
+            return S.ColouredTriMesh(pts, tl, colours=np.linspace(0.0, 1.0, n * 3).reshape(n, 3))
+        from menpo.image import Image
+        return S.TexturedTriMesh(pts, np.linspace(0.0, 1.0, n * 2).reshape(n, 2), Image(np.zeros((1, 4, 4))), tl)
+    edges = np.array(spec["edges"], dtype=np.int64).reshape(-1, 2)
+    if cls == "PointUndirectedGraph":
+        return S.PointUndirectedGraph.init_from_edges(pts, edges)
+    if cls == "PointDirectedGraph":
+        return S.PointDirectedGraph.init_from_edges(pts, edges)
+    if cls == "PointTree":
+        return S.PointTree.init_from_edges(pts, edges, root_vertex=0)
+    if cls == "LabelledPointUndirectedGraph":
+        from collections import OrderedDict
+        m = np.zeros(n, dtype=bool)
+        m[:spec["split"]] = True
+        return S.LabelledPointUndirectedGraph.init_from_edges(pts, edges, OrderedDict([("a", m), ("b", ~m)]))
+    raise ValueError(cls)
 
 
 # ----------------------------------------------------------------------------- recipes -> real objects
@@ -216,7 +387,7 @@ def build(recipe):
             u.pseudoinverse()
         except Exception:
             pass
-        u.set_target(PointCloud(np.array(recipe[key], dtype=float)))
+        u.set_target(make_shape(recipe.get("tgt_as"), recipe[key]))
         return u
     if recipe["kind"] != "hom":
         return t
@@ -253,34 +424,72 @@ def build(recipe):
     return t
 
 
+ARRAY_FORMS = ["C", "C", "F", "strided", "transposed-view", "int", "float32", "readonly"]
+
+
+def present(a, form):
+    """the same numbers as another kind of ndarray: Fortran order, a strided view into a larger buffer, the transpose
+    view of the transposed copy, an integer / float32 array (only if that loses nothing), a read-only array"""
+    a = np.array(a, dtype=float)
+    if form == "F":
+        return np.asfortranarray(a)
+    if form == "strided":
+        big = np.full(tuple(2 * n + 1 for n in a.shape), 7.5)
+        sl = tuple(slice(1, None, 2) for _ in a.shape)
+        big[sl] = a
+        return big[sl]
+    if form == "transposed-view":
+        return np.array(a.T, order="C").T
+    if form == "int":
+        return a.astype(np.int64) if np.array_equal(a, np.round(a)) else a
+    if form == "float32":
+        return a.astype(np.float32) if np.array_equal(a.astype(np.float32).astype(float), a) else a
+    if form == "readonly":
+        a.setflags(write=False)
+        return a
+    return a
+
+
 def _build_fresh(recipe):
     import menpo.transform as T
     from menpo.shape import PointCloud, TriMesh
     k = recipe["kind"]
     if k == "hom":
         c = recipe["cls"]
+        form = recipe.get("array", "C")
         if c in ("Homogeneous", "Affine", "Similarity"):
-            return getattr(T, c)(np.array(recipe["h"], dtype=float))
+            return getattr(T, c)(present(recipe["h"], form))
         if c == "Rotation":
-            return T.Rotation(np.array(recipe["R"], dtype=float))
+            return T.Rotation(present(recipe["R"], form))
         if c == "Translation":
-            return T.Translation(np.array(recipe["t"], dtype=float))
+            return T.Translation(present(recipe["t"], form))
         if c == "UniformScale":
-            return T.UniformScale(float(recipe["s"]), int(recipe["d"]))
+            sv = recipe["s"]
+            if form == "int" and float(sv) == int(sv):
+                sv = int(sv)
+            elif form == "float32":
+                sv = np.float32(sv) if float(np.float32(sv)) == float(sv) else float(sv)
+            else:
+                sv = float(sv)
+            return T.UniformScale(sv, int(recipe["d"]))
         if c == "NonUniformScale":
-            return T.NonUniformScale(np.array(recipe["v"], dtype=float))
-        src = PointCloud(np.array(recipe["source"], dtype=float))
-        tgt = PointCloud(np.array(recipe["target"], dtype=float))
+            return T.NonUniformScale(present(recipe["v"], form))
+        src = make_shape(recipe.get("src_as"), recipe["source"])
+        tgt = make_shape(recipe.get("tgt_as"), recipe["target"])
         return getattr(T, c)(src, tgt, **recipe.get("kwargs", {}))
     if k == "pwa":
         from menpo.transform.piecewiseaffine.base import PythonPWA, CachedPWA
-        cls = {"PythonPWA": PythonPWA, "CachedPWA": CachedPWA}[recipe["cls"]]
-        src = TriMesh(np.array(recipe["src"], dtype=float), np.array(recipe["trilist"], dtype=np.int64))
-        return cls(src, PointCloud(np.array(recipe["tgt"], dtype=float)))
+        cls = {"PythonPWA": PythonPWA, "CachedPWA": CachedPWA, "PiecewiseAffine": T.PiecewiseAffine}[recipe["cls"]]
+        # the source decides the triangulation: a mesh class carrying `trilist`, or any other shape class (then the
+        # constructor triangulates the source points itself: Delaunay, which the generator has reproduced)
+        src = make_shape(recipe.get("src_as") or {"cls": "TriMesh", "trilist": recipe["trilist"]}, recipe["src"])
+        return cls(src, make_shape(recipe.get("tgt_as"), recipe["tgt"]))
     if k == "tps":
-        src = PointCloud(np.array(recipe["src"], dtype=float))
-        tgt = PointCloud(np.array(recipe["tgt"], dtype=float))
+        src = make_shape(recipe.get("src_as"), recipe["src"])
+        tgt = make_shape(recipe.get("tgt_as"), recipe["tgt"])
         kern = None if recipe.get("kernel") is None else getattr(T, recipe["kernel"])(src.points)
+        if recipe.get("msv") is not None:
+            return T.ThinPlateSplines(src, tgt, kernel=kern, min_singular_val=float(recipe["msv"]))
         return T.ThinPlateSplines(src, tgt, kernel=kern)
     if k == "tcoords":
         return T.tcoords_to_image_coords(tuple(recipe["shape"]))
@@ -294,20 +503,35 @@ def snippet(recipe):
 
 # ----------------------------------------------------------------------------- generators
 
-def gen_hom(rng, cls=None, d=None):
+def gen_target(rng, src, d):
+    """a target for the landmark set `src`: a known well conditioned similarity-ish map of it plus bounded noise"""
+    R = rat_rotation(rng, d)
+    k = Fraction(rng.choice([1, 2, 3, 4, 6]), rng.choice([1, 2, 4]))
+    t = [F(dy(rng, 24, 2)) for _ in range(d)]
+    noise = Fraction(rng.choice([0, 1, 2, 4]), 8)
+    tgt = []
+    for p in src:
+        q = [k * sum(R[i][j] * F(p[j]) for j in range(d)) + t[i] for i in range(d)]
+        tgt.append([float(q[i] + noise * F(dy(rng, 8, 3))) for i in range(d)])
+    return tgt
+
+
+def gen_hom(rng, cls=None, d=None, history=True):
     cls = cls or rng.choice(FAMILY)
     d = d or rng.choice([2, 3])
-    r = {"kind": "hom", "cls": cls, "d": d, "history": rng.choice([None, "pinv-then-update"])}
+    r = {"kind": "hom", "cls": cls, "d": d, "history": rng.choice([None, "pinv-then-update"]) if history else None}
+    if not cls.startswith("Alignment"):
+        r["array"] = rng.choice(ARRAY_FORMS)
     if cls == "Homogeneous":
         while True:
-            m = int_matrix(rng, d + 1, -3, 3, 1, 24)
+            m = unimodular(rng, d + 1) if rng.random() < 0.3 else int_matrix(rng, d + 1, -3, 3, 1, 24)
             if m[d][d] != 0:
                 break
-        sc = rng.choice([1.0, 0.5, 0.25, 2.0])
+        sc = rng.choice([1.0, 1.0, 0.5, 0.25, 2.0])
         r["h"] = [[v * sc for v in row] for row in m]
     elif cls == "Affine":
-        L = int_matrix(rng, d)
-        sc = rng.choice([1.0, 0.5, 0.25, 2.0])
+        L = unimodular(rng, d) if rng.random() < 0.3 else int_matrix(rng, d)
+        sc = rng.choice([1.0, 1.0, 0.5, 0.25, 2.0])
         r["h"] = [[L[i][j] * sc for j in range(d)] + [dy(rng, 40, 2)] for i in range(d)] + [[0.0] * d + [1.0]]
     elif cls == "Similarity":
         R = rat_rotation(rng, d)
@@ -328,18 +552,13 @@ def gen_hom(rng, cls=None, d=None):
                 break
         r["v"] = v
     else:
-        n = rng.randint(d + 2, d + 5)
+        n = rng.randint(d + 1, d + 5)          # d + 1 landmarks: the affine fit is exact
         src = general_cloud(rng, d, n)
-        # target = a known well conditioned similarity-ish map of the source plus bounded noise
-        R = rat_rotation(rng, d)
-        k = Fraction(rng.choice([1, 2, 3, 4, 6]), rng.choice([1, 2, 4]))
-        t = [F(dy(rng, 24, 2)) for _ in range(d)]
-        noise = Fraction(rng.choice([0, 1, 2, 4]), 8)
-        tgt = []
-        for p in src:
-            q = [k * sum(R[i][j] * F(p[j]) for j in range(d)) + t[i] for i in range(d)]
-            tgt.append([float(q[i] + noise * F(dy(rng, 8, 3))) for i in range(d)])
-        r["source"], r["target"] = src, tgt
+        r["source"], r["target"] = src, gen_target(rng, src, d)
+        if rng.random() < 0.2:         # landmark sets on the integer lattice (go in as int64 arrays where the spec says so)
+            r["source"] = [[float(round(2 * v)) for v in p] for p in src]
+            r["target"] = [[float(round(2 * v)) for v in p] for p in r["target"]]
+        r["src_as"], r["tgt_as"] = gen_shape_spec(rng, n, d), gen_shape_spec(rng, n, d)
         if cls == "AlignmentSimilarity":
             r["kwargs"] = {"rotation": rng.random() < 0.8, "allow_mirror": rng.random() < 0.3}
         elif cls == "AlignmentRotation":
@@ -349,22 +568,71 @@ def gen_hom(rng, cls=None, d=None):
     return r
 
 
+def jitter(rng, nx, ny):
+    return [[i + rng.randint(-4, 4) / 16.0, j + rng.randint(-4, 4) / 16.0] for j in range(ny) for i in range(nx)]
+
+
 def grid_mesh(rng):
+    """jittered unit grid; every cell cut along one of its diagonals (`tris`), and along the other one (`alt`)"""
     nx, ny = rng.randint(2, 4), rng.randint(2, 4)
-
-    def jitter():
-        return [[i + rng.randint(-4, 4) / 16.0, j + rng.randint(-4, 4) / 16.0] for j in range(ny) for i in range(nx)]
-
-    tris = []
+    tris, alt = [], []
     for j in range(ny - 1):
         for i in range(nx - 1):
             a, b, c, e = j * nx + i, j * nx + i + 1, (j + 1) * nx + i + 1, (j + 1) * nx + i
-            pair = [[a, b, c], [a, c, e]] if rng.random() < 0.5 else [[a, b, e], [b, c, e]]
-            for t in pair:
+            pairs = [[[a, b, c], [a, c, e]], [[a, b, e], [b, c, e]]]
+            if rng.random() < 0.5:
+                pairs.reverse()
+            for t in pairs[0]:
                 rng.shuffle(t)
                 tris.append(t)
+            for t in pairs[1]:
+                rng.shuffle(t)
+                alt.append(t)
     rng.shuffle(tris)
-    return jitter, tris
+    rng.shuffle(alt)
+    return nx, ny, tris, alt
+
+
+PWA_MAPS = [[[1, 0], [0, 1]], [[2, 0], [0, 1]], [[1, 1], [0, 1]], [[0, -2], [1, 0]], [[1.5, 0.5], [-0.5, 2]],
+            [[-1, 0], [0, 1]]]
+
+
+def pwa_target(rng, nx, ny, src, tris):
+    """target points for the mesh (src, tris): another jitter of the grid under an affine map - a warp that is
+    piecewise affine but not affine, without folding and clearly non-degenerate (every triangle keeps its orientation
+    and an area >= 1/16 before the affine map).  None if this draw folds."""
+    base = jitter(rng, nx, ny)
+    A = rng.choice(PWA_MAPS)
+    b = [dy(rng, 16, 1), dy(rng, 16, 1)]
+    s_or = [tri_cross(src, t) for t in tris]
+    b_or = [tri_cross(base, t) for t in tris]
+    if not (all(abs(v) >= Fraction(1, 8) for v in s_or + b_or) and all((u > 0) == (v > 0) for u, v in zip(s_or, b_or))):
+        return None
+    return [[A[0][0] * p[0] + A[0][1] * p[1] + b[0], A[1][0] * p[0] + A[1][1] * p[1] + b[1]] for p in base]
+
+
+def pwa_interior(rng, pts, tris, k=5):
+    out = []
+    for _ in range(k):
+        t = rng.choice(tris)
+        while True:
+            al, be = rng.randint(1, 6), rng.randint(1, 6)
+            if al + be <= 7:
+                break
+        a, bb, c = (pts[i] for i in t)
+        out.append([a[j] + al / 8.0 * (bb[j] - a[j]) + be / 8.0 * (c[j] - a[j]) for j in range(2)])
+    return out
+
+
+def pwa_target_spec(rng, tk, n, tris, alt):
+    tcls, _, how = tk.partition(":")
+    if how == "same":
+        return {"cls": tcls, "trilist": tris}
+    if how == "other":
+        return {"cls": tcls, "trilist": alt}
+    if how == "delaunay":
+        return {"cls": tcls, "trilist": None}
+    return gen_shape_spec(rng, n, 2, tcls)
 
 
 def tri_cross(p, t):
@@ -372,38 +640,81 @@ def tri_cross(p, t):
     return (b[0] - a[0]) * (c[1] - a[1]) - (b[1] - a[1]) * (c[0] - a[0])
 
 
-def gen_pwa(rng):
+def bary(p, t, x):
+    """exact barycentric coordinates (alpha, beta) of x in triangle t of the point list p"""
+    a, b, c = (list(map(F, p[i])) for i in t)
+    x = list(map(F, x))
+    det = (b[0] - a[0]) * (c[1] - a[1]) - (b[1] - a[1]) * (c[0] - a[0])
+    al = ((x[0] - a[0]) * (c[1] - a[1]) - (x[1] - a[1]) * (c[0] - a[0])) / det
+    be = ((b[0] - a[0]) * (x[1] - a[1]) - (b[1] - a[1]) * (x[0] - a[0])) / det
+    return al, be
+
+
+def holders(p, tris, x, margin=Fraction(0)):
+    """indices of the triangles whose closed hull, enlarged by `margin` in barycentric units, contains x (exact)"""
+    out = []
+    for k, t in enumerate(tris):
+        al, be = bary(p, t, x)
+        if al >= -margin and be >= -margin and al + be <= 1 + margin:
+            out.append(k)
+    return out
+
+
+def probes_unambiguous(src, tgt, tris, xs, from_src=True):
+    """every probe lies clearly inside exactly one triangle of its own mesh, and its image clearly inside exactly one
+    triangle of the other mesh (exact arithmetic on the inputs): the round trip is then decided away from every edge,
+    where float rounding could pick another triangle or none"""
+    m = Fraction(1, 64)
+    p, q = (src, tgt) if from_src else (tgt, src)
+    for x in xs:
+        hs = holders(p, tris, x, m)
+        if len(hs) != 1:
+            return False
+        k = hs[0]
+        al, be = bary(p, tris[k], x)
+        if min(al, be, 1 - al - be) < m:
+            return False
+        a, b, c = (list(map(F, q[i])) for i in tris[k])
+        y = [a[i] + al * (b[i] - a[i]) + be * (c[i] - a[i]) for i in range(2)]
+        if holders(q, tris, y, m) != [k]:
+            return False
+    return True
+
+
+PWA_SRC_KINDS = ["TriMesh", "TriMesh", "ColouredTriMesh", "TexturedTriMesh", "delaunay:PointCloud",
+                 "delaunay:PointUndirectedGraph", "delaunay:PointTree"]
+PWA_TGT_KINDS = ["PointCloud", "TriMesh:same", "TriMesh:other", "TriMesh:other", "TriMesh:delaunay",
+                 "ColouredTriMesh:other", "TexturedTriMesh:other", "TexturedTriMesh:same", "PointUndirectedGraph",
+                 "PointDirectedGraph", "PointTree", "LabelledPointUndirectedGraph"]
+
+
+def gen_pwa(rng, history=True):
+    """a fold-free piecewise affine warp, not affine as a whole.  The triangulation is the SOURCE's: given by a mesh
+    class, or (any other shape class) the Delaunay triangulation the constructor computes.  The target comes as every
+    shape class, in particular as meshes carrying a different triangulation of their own, which must not matter."""
     while True:
-        jitter, tris = grid_mesh(rng)
-        src = jitter()
-        base = jitter()
-        A = rng.choice([[[1, 0], [0, 1]], [[2, 0], [0, 1]], [[1, 1], [0, 1]], [[0, -2], [1, 0]], [[1.5, 0.5], [-0.5, 2]],
-                        [[-1, 0], [0, 1]]])
-        b = [dy(rng, 16, 1), dy(rng, 16, 1)]
-        tgt = [[A[0][0] * p[0] + A[0][1] * p[1] + b[0], A[1][0] * p[0] + A[1][1] * p[1] + b[1]] for p in base]
-        # no folding, clearly non-degenerate: unit-grid cells keep their orientation under jitter <= 1/4
-        s_or = [tri_cross(src, t) for t in tris]
-        b_or = [tri_cross(base, t) for t in tris]
-        if all(abs(v) >= Fraction(1, 8) for v in s_or + b_or) and all((u > 0) == (v > 0) for u, v in zip(s_or, b_or)):
-            break
-    r = {"kind": "pwa", "cls": rng.choice(["PythonPWA", "CachedPWA"]), "src": src, "tgt": tgt, "trilist": tris,
-         "history": rng.choice([None, "pinv-then-update"])}
-
-    def interior(pts):
-        out = []
-        for _ in range(5):
-            t = rng.choice(tris)
-            while True:
-                al, be = rng.randint(1, 6), rng.randint(1, 6)
-                if al + be <= 7:
-                    break
-            a, bb, c = (pts[i] for i in t)
-            out.append([a[k] + al / 8.0 * (bb[k] - a[k]) + be / 8.0 * (c[k] - a[k]) for k in range(2)])
-        return out
-
-    r["xs"] = interior(src)
-    r["y2"] = interior(tgt)
-    return r
+        nx, ny, tris, alt = grid_mesh(rng)
+        src = jitter(rng, nx, ny)
+        sk = rng.choice(PWA_SRC_KINDS)
+        tk = rng.choice(PWA_TGT_KINDS)
+        n = len(src)
+        if sk.startswith("delaunay:"):
+            from scipy.spatial import Delaunay            # what TriMesh(points) does for a source that is no mesh
+            tris = [[int(v) for v in row] for row in Delaunay(np.array(src, dtype=float)).simplices]
+            src_as = gen_shape_spec(rng, n, 2, sk.split(":")[1])
+        else:
+            src_as = {"cls": sk, "trilist": tris}
+        tgt = pwa_target(rng, nx, ny, src, tris)
+        if tgt is None:
+            continue
+        r = {"kind": "pwa", "cls": rng.choice(["PythonPWA", "CachedPWA", "PiecewiseAffine"]), "src": src, "tgt": tgt,
+             "trilist": tris, "alt": alt, "grid": [nx, ny], "src_as": src_as,
+             "tgt_as": pwa_target_spec(rng, tk, n, tris, alt),
+             "history": rng.choice([None, "pinv-then-update"]) if history else None}
+        r["xs"] = pwa_interior(rng, src, tris)
+        r["y2"] = pwa_interior(rng, tgt, tris)
+        if probes_unambiguous(src, tgt, tris, r["xs"], True) and probes_unambiguous(src, tgt, tris, r["y2"], False):
+            return r
 
 
 def tps_system_ok(src):
@@ -420,24 +731,41 @@ def tps_system_ok(src):
     return s.min() >= 5e-2 and s.max() / s.min() <= 1e5
 
 
-def gen_tps(rng):
+TPS_MAPS = [[[1, 0], [0, 1]], [[2, 0], [0, 1]], [[1, 0.5], [0, 1]], [[0, -1], [1, 0]], [[1.5, 0.5], [-0.5, 1]]]
+
+
+def tps_target(rng, src):
+    """target landmarks for a spline on `src`: an affine image plus bounded noise (so the warp is not affine), points
+    well separated and the reverse system well conditioned; None if this draw is not"""
+    n = len(src)
+    A = rng.choice(TPS_MAPS)
+    b = [dy(rng, 8, 1), dy(rng, 8, 1)]
+    tgt = [[A[0][0] * p[0] + A[0][1] * p[1] + b[0] + rng.randint(-3, 3) / 8.0,
+            A[1][0] * p[0] + A[1][1] * p[1] + b[1] + rng.randint(-3, 3) / 8.0] for p in src]
+    if any(sum((a - c) ** 2 for a, c in zip(tgt[i], tgt[j])) < 0.25 for i in range(n) for j in range(i)):
+        return None
+    return tgt if tps_system_ok(tgt) else None
+
+
+def gen_tps(rng, history=True):
     while True:
-        n = rng.randint(4, 7)
+        n = rng.randint(3, 7)          # 3 landmarks: the spline degenerates to the affine map through them
         src = []
         while len(src) < n:
             p = [rng.randint(-12, 12) / 4.0, rng.randint(-12, 12) / 4.0]
             if all((p[0] - q[0]) ** 2 + (p[1] - q[1]) ** 2 >= 1.0 for q in src):
                 src.append(p)
-        A = rng.choice([[[1, 0], [0, 1]], [[2, 0], [0, 1]], [[1, 0.5], [0, 1]], [[0, -1], [1, 0]], [[1.5, 0.5], [-0.5, 1]]])
-        b = [dy(rng, 8, 1), dy(rng, 8, 1)]
-        tgt = [[A[0][0] * p[0] + A[0][1] * p[1] + b[0] + rng.randint(-3, 3) / 8.0,
-                A[1][0] * p[0] + A[1][1] * p[1] + b[1] + rng.randint(-3, 3) / 8.0] for p in src]
-        if any(sum((a - c) ** 2 for a, c in zip(tgt[i], tgt[j])) < 0.25 for i in range(n) for j in range(i)):
+        if not tps_system_ok(src):
             continue
-        if tps_system_ok(src) and tps_system_ok(tgt):
+        tgt = tps_target(rng, src)
+        if tgt is not None:
             break
-    return {"kind": "tps", "history": rng.choice([None, "pinv-then-update"]),
+    return {"kind": "tps", "history": rng.choice([None, "pinv-then-update"]) if history else None,
+            "src_as": gen_shape_spec(rng, n, 2), "tgt_as": gen_shape_spec(rng, n, 2),
             "src": src, "tgt": tgt, "kernel": rng.choice([None, "R2LogR2RBF", "R2LogRRBF"]),
+            # the truncation floor is an option the inverse has to carry over; all values stay far below the smallest
+            # singular value the generator admits (5e-2), so nothing is truncated
+            "msv": rng.choice([None, None, 1e-6, 1e-3]),
             "pts": [[rng.randint(-16, 16) / 4.0, rng.randint(-16, 16) / 4.0] for _ in range(3)]}
 
 
@@ -453,18 +781,21 @@ def amax(a):
     return float(np.max(np.abs(a))) if a.size else 0.0
 
 
-def near(a, b, scale):
+TOL32 = 1e-4       # DESIGN section 3: single-precision parameters are compared to 1e-4 relative
+
+
+def near(a, b, scale, tol=None):
     a, b = np.asarray(a, dtype=float), np.asarray(b, dtype=float)
     if a.shape != b.shape or not (np.all(np.isfinite(a)) and np.all(np.isfinite(b))):
         return False
-    return bool(np.all(np.abs(a - b) <= TOL * (1.0 + scale)))
+    return bool(np.all(np.abs(a - b) <= (tol or TOL) * (1.0 + scale)))
 
 
-def honest(cls_name, h, scale):
+def honest(cls_name, h, scale, tol0=TOL):
     """class invariants of a family class, numerically (what it means to be an honest member)"""
     d = h.shape[0] - 1
     L, t = h[:d, :d], h[:d, d]
-    tol = 1e-9 * (1 + scale * scale)
+    tol = tol0 * (1 + scale * scale)
     aff = np.all(np.abs(h[d, :d]) <= tol) and abs(h[d, d] - 1) <= tol
     base = cls_name.replace("Alignment", "")
     if base == "Homogeneous":
@@ -509,30 +840,32 @@ def exact_domain_ok(h, pts):
 
 # ----------------------------------------------------------------------------- cases on the real code
 
-def case_hom(ctx, r, lines, pend, cid):
-    """homogeneous family member: oracle now, model line queued.  Returns False if the recipe is outside the domain"""
+def oracle_hom(ctx, t, cls, d, xs, x2, rp):
+    """The property on the real homogeneous-family object `t` AS IT IS NOW (whatever happened to it before):
+    has_true_inverse, two-sided round trip, class and honesty of the inverse, current end points exchanged.
+    Returns None if the current state is outside the property's quantifier (singular / ill conditioned / probe outside
+    the projective domain), {"raised": True} after an oracle failure by exception, else the observations."""
     import menpo.transform as T
     from menpo.transform.base import Alignment
-    cls, d = r["cls"], r["d"]
-    rp = {"recipe": r, "python": snippet(r)}
-    t = build(r)
     h = np.array(t.h_matrix, dtype=float)
+    if not np.all(np.isfinite(h)):
+        return None
+    # a transform holding single-precision parameters inverts in single precision (np.linalg.inv keeps the dtype)
+    tol = TOL32 if np.asarray(t.h_matrix).dtype == np.float32 else TOL
+    if tol == TOL32 and (cond_inf([[F(v) for v in row] for row in h]) or 10 ** 9) > 200:
+        return None       # single precision: "bounded condition number" means bounded relative to 1e-7, not to 1e-16
     hq = [[F(v) for v in row] for row in h]
     big = max(amax(h), 1.0)
     cn = cond_inf(hq)
     if cn is None or cn > 10 ** 6:
-        return False      # singular / ill conditioned (e.g. a degenerate alignment): outside the quantifier
-    xs = np.array(r["xs"], dtype=float)
-    x2 = np.array(r["x2"], dtype=float)
-    if cls == "Homogeneous" and not exact_domain_ok(h.tolist(), r["xs"] + r["x2"]):
-        return False
+        return None       # singular / ill conditioned (e.g. a degenerate alignment): outside the quantifier
+    if cls == "Homogeneous" and not exact_domain_ok(h.tolist(), np.asarray(xs).tolist() + np.asarray(x2).tolist()):
+        return None
     site = "C04/hom.pinv"
     is_al = cls.startswith("Alignment")
     if is_al:
         s0, t0 = t.source, t.target
         s0p, t0p = s0.points.copy(), t0.points.copy()
-    ctx.count("class:%s/%dD" % (cls, d))
-    ctx.count("history:hom:" + str(r.get("history")))
     try:
         hti = t.has_true_inverse
         p = t.pseudoinverse()
@@ -545,18 +878,18 @@ def case_hom(ctx, r, lines, pend, cid):
     except Exception as e:
         ctx.fail(site + "/raises", type(e).__name__, "pseudoinverse/apply raised %s: %s on a non-singular %s" % (
             type(e).__name__, e, cls), rp)
-        return True
+        return {"raised": True}
     scale = max(big, amax(ph), amax(xs), amax(y), amax(x3), amax(y2))
     ctx.check(hti is True, site + "/has_true_inverse", "not-true", "%s.has_true_inverse is %r" % (cls, hti), rp)
-    ctx.check(near(back, xs, scale), site + "/left", "roundtrip", "pinv.apply(t.apply(x)) != x for %s %dD: %r vs %r" % (
-        cls, d, np.asarray(back).tolist(), xs.tolist()), rp)
-    ctx.check(near(y3, y2, scale), site + "/right", "roundtrip", "t.apply(pinv.apply(y)) != y for %s %dD: %r vs %r" % (
-        cls, d, np.asarray(y3).tolist(), y2.tolist()), rp)
+    ctx.check(near(back, xs, scale, tol), site + "/left", "roundtrip", "pinv.apply(t.apply(x)) != x for %s %dD: %r vs %r" % (
+        cls, d, np.asarray(back).tolist(), np.asarray(xs).tolist()), rp)
+    ctx.check(near(y3, y2, scale, tol), site + "/right", "roundtrip", "t.apply(pinv.apply(y)) != y for %s %dD: %r vs %r" % (
+        cls, d, np.asarray(y3).tolist(), np.asarray(y2).tolist()), rp)
     pname = family_class_name(p)
     ctx.check(pname is not None and isinstance(p, T.Homogeneous), site + "/class", "not-family",
               "pseudoinverse of %s is a %s, not a homogeneous-family class" % (cls, type(p).__name__), rp)
     if pname is not None:
-        ctx.check(honest(pname, ph, scale), site + "/class", "dishonest",
+        ctx.check(honest(pname, ph, scale, tol), site + "/class", "dishonest",
                   "pseudoinverse of %s claims class %s but its matrix breaks that class's invariants: %r" % (
                       cls, pname, ph.tolist()), rp)
     if is_al:
@@ -568,12 +901,84 @@ def case_hom(ctx, r, lines, pend, cid):
                   and np.array_equal(p.target.points, s0p))
             ctx.check(sw, "C04/alignment.pinv/ends", "not-swapped",
                       "pseudoinverse of %s does not have source and target exchanged" % cls, rp)
+    return {"cls": pname, "h": h, "ph": ph, "y": np.asarray(y), "back": np.asarray(back), "scale": scale, "rp": rp,
+            "p": p, "cond": float(cn), "tol": tol}
+
+
+def case_hom(ctx, r, lines, pend, cid):
+    """homogeneous family member: oracle now, model line queued.  Returns False if the recipe is outside the domain"""
+    cls, d = r["cls"], r["d"]
+    rp = {"recipe": r, "python": snippet(r)}
+    t = build(r)
+    xs = np.array(r["xs"], dtype=float)
+    x2 = np.array(r["x2"], dtype=float)
+    obs = oracle_hom(ctx, t, cls, d, xs, x2, rp)
+    if obs is None:
+        return False
+    ctx.count("class:%s/%dD" % (cls, d))
+    ctx.count("history:hom:" + str(r.get("history")))
+    if cls.startswith("Alignment"):
+        ctx.count("landmarks:%s/%s" % (t.source.points.dtype, t.target.points.dtype))
+        ctx.count("landmarks-as:%s" % type(t.source).__name__)
+    if "array" in r:
+        ctx.count("array-form:" + r["array"])
+    ctx.count("condition:%s" % ("<1e2" if obs.get("cond", 0) < 1e2 else "<1e4" if obs["cond"] < 1e4 else "<=1e6"))
+    if obs.get("raised"):
+        return True
+    obs.pop("p")
     # model line
-    obs = {"cls": pname, "ph": ph, "y": np.asarray(y), "back": np.asarray(back), "scale": scale, "rp": rp}
-    lines.append("%s hom %s %d %s %d %s %s" % (cid, cls, d, common.fqs(h.ravel()), len(xs), common.fqs(xs.ravel()),
-                                              common.fqs(np.asarray(y, dtype=float).ravel())))
+    lines.append("%s hom %s %d %s %d %s %s" % (cid, cls, d, common.fqs(obs["h"].ravel()), len(xs), common.fqs(xs.ravel()),
+                                              common.fqs(np.asarray(obs["y"], dtype=float).ravel())))
     pend[cid] = ("hom", obs)
+    if "from_vector" in legal_mutators(cls, d):
+        case_pinv_vector(ctx, t, cls, d, xs, rp, lines, pend, cid + "v")
     return True
+
+
+def case_pinv_vector(ctx, t, cls, d, xs, rp, lines, pend, cid):
+    """`VInvertible.pseudoinverse_vector(v)`: the parameter vector of the inverse of the transform `v` denotes.
+    Oracle: the object rebuilt from the returned vector undoes the object rebuilt from `v` from both sides and has the
+    same class; correspondence: its matrix against the model's pseudoinverse of from_vector(v)."""
+    import warnings
+    site = "C04/pinv_vector"
+    try:
+        with warnings.catch_warnings():
+            warnings.simplefilter("ignore")
+            v = np.array(t.as_vector(), dtype=float)
+            w = t.from_vector(v)
+            wh = np.array(w.h_matrix, dtype=float)
+            cn = cond_inf([[F(x) for x in row] for row in wh])
+            if cn is None or cn > 10 ** 6:
+                return
+            if cls == "Homogeneous" and not exact_domain_ok(wh.tolist(), xs.tolist()):
+                return
+            pv = t.pseudoinverse_vector(v)
+            q = t.from_vector(pv)
+            qh = np.array(q.h_matrix, dtype=float)
+            y = w.apply(xs)
+            back = q.apply(y)
+            fwd = w.apply(q.apply(xs)) if cls != "Homogeneous" else None
+    except Exception as e:
+        ctx.fail(site + "/raises", type(e).__name__, "pseudoinverse_vector raised %s: %s on the parameters of a "
+                 "non-singular %s" % (type(e).__name__, e, cls), rp)
+        return
+    ctx.count("entry:pseudoinverse_vector:%s" % cls)
+    scale = max(amax(wh), amax(qh), amax(xs), amax(y), 1.0)
+    tol = TOL32 if np.float32 in (np.asarray(w.h_matrix).dtype, np.asarray(q.h_matrix).dtype, np.asarray(pv).dtype) else TOL
+    if tol == TOL32 and cn > 200:
+        return
+    ctx.check(np.asarray(pv).shape == v.shape, site + "/shape", "length", "pseudoinverse_vector returns %r parameters "
+              "for a %r-parameter %s" % (np.asarray(pv).shape, v.shape, cls), rp)
+    ctx.check(near(back, xs, scale, tol), site + "/left", "roundtrip",
+              "from_vector(pseudoinverse_vector(v)) does not undo from_vector(v) for %s %dD" % (cls, d), rp)
+    if fwd is not None:
+        ctx.check(near(fwd, xs, scale, tol), site + "/right", "roundtrip",
+                  "from_vector(v) does not undo from_vector(pseudoinverse_vector(v)) for %s %dD" % (cls, d), rp)
+    ctx.check(type(q) is type(t), site + "/class", "other-class", "from_vector(pseudoinverse_vector(v)) is a %s" % type(q).__name__, rp)
+    lines.append("%s hom %s %d %s %d %s %s" % (cid, cls, d, common.fqs(wh.ravel()), len(xs), common.fqs(xs.ravel()),
+                                              common.fqs(np.asarray(y, dtype=float).ravel())))
+    pend[cid] = ("hom", {"cls": cls, "ph": qh, "y": np.asarray(y), "back": np.asarray(back), "scale": scale, "tol": tol,
+                         "rp": dict(rp, entry="pseudoinverse_vector")})
 
 
 def case_tcoords(ctx, r, lines, pend, cid):
@@ -608,15 +1013,11 @@ def case_tcoords(ctx, r, lines, pend, cid):
     return True
 
 
-def case_pwa(ctx, r, lines, pend, cid):
+def oracle_pwa(ctx, t, xs, y2, rp):
+    """the property on the real piecewise affine warp `t` as it is now; observations, or {"raised": True}"""
     from menpo.shape import PointCloud, TriMesh
-    rp = {"recipe": r, "python": snippet(r)}
     site = "C04/pwa.pinv"
-    ctx.count("class:%s" % r["cls"])
-    xs = np.array(r["xs"], dtype=float)
-    y2 = np.array(r["y2"], dtype=float)
     try:
-        t = build(r)
         sp, tp, tl = t.source.points.copy(), t.target.points.copy(), np.array(t.trilist).copy()
         hti = t.has_true_inverse
         p = t.pseudoinverse()
@@ -630,27 +1031,51 @@ def case_pwa(ctx, r, lines, pend, cid):
     except Exception as e:
         ctx.fail(site + "/raises", type(e).__name__, "PWA pseudoinverse/apply raised %s on interior points of a "
                  "non-degenerate mesh" % type(e).__name__, rp)
-        return True
+        return {"raised": True}
     scale = max(amax(sp), amax(tp))
     ctx.check(hti is True, site + "/has_true_inverse", "not-true", "PWA.has_true_inverse is %r" % (hti,), rp)
     ctx.check(near(back, xs, scale), site + "/left", "roundtrip", "pinv.apply(t.apply(x)) != x: %r vs %r" % (
-        np.asarray(back).tolist(), xs.tolist()), rp)
+        np.asarray(back).tolist(), np.asarray(xs).tolist()), rp)
     ctx.check(near(y3, y2, scale), site + "/right", "roundtrip", "t.apply(pinv.apply(y)) != y: %r vs %r" % (
-        np.asarray(y3).tolist(), y2.tolist()), rp)
+        np.asarray(y3).tolist(), np.asarray(y2).tolist()), rp)
     ctx.check(type(p) is type(t), site + "/class", "other-class", "pseudoinverse of %s is a %s" % (
         type(t).__name__, type(p).__name__), rp)
     same_tris = sorted(tuple(sorted(int(v) for v in row)) for row in np.array(p.trilist)) == \
         sorted(tuple(sorted(int(v) for v in row)) for row in tl)          # the same triangles (vertex order is immaterial)
     ends = np.array_equal(p.source.points, tp) and np.array_equal(p.target.points, sp) and same_tris
-    ctx.check(ends, site + "/ends", "not-swapped", "PWA pseudoinverse is not (target points, same triangles) -> source points", rp)
+    ctx.check(ends, site + "/ends", "not-swapped", "PWA pseudoinverse is not (target points, source trilist) -> source points", rp)
     ctx.check(near(lm, sp, scale), site + "/landmarks", "missed", "PWA pseudoinverse does not return the target landmarks "
               "to the source landmarks (max miss %.3g)" % amax(np.asarray(lm) - sp), rp)
     ctx.check(near(x3, rv, scale), site + "/reverse-fit", "differs", "PWA pseudoinverse differs from the PWA fitted in "
               "the reverse direction", rp)
-    obs = {"y": np.asarray(y), "back": np.asarray(back), "scale": scale, "rp": rp}
-    flat = lambda a: common.fqs(np.asarray(a, dtype=float).ravel())
-    lines.append("%s pwa %d %s %s %d %s %d %s %s" % (cid, len(sp), flat(sp), flat(tp), len(tl),
-                                                    " ".join(str(int(v)) for v in tl.ravel()), len(xs), flat(xs), flat(y)))
+    return {"y": np.asarray(y), "back": np.asarray(back), "x3": np.asarray(x3), "scale": scale, "rp": rp,
+            "sp": sp, "tp": tp, "tl": tl}
+
+
+def flat(a):
+    return common.fqs(np.asarray(a, dtype=float).ravel())
+
+
+def case_pwa(ctx, r, lines, pend, cid):
+    rp = {"recipe": r, "python": snippet(r)}
+    ctx.count("class:%s" % r["cls"])
+    ctx.count("pwa:source-as:%s" % (r.get("src_as") or {}).get("cls"))
+    ctx.count("pwa:target-as:%s%s" % ((r.get("tgt_as") or {}).get("cls"), "" if (r.get("tgt_as") or {}).get(
+        "trilist", 0) == 0 else (":same-trilist" if r["tgt_as"]["trilist"] == r["trilist"] else ":own-trilist")))
+    xs = np.array(r["xs"], dtype=float)
+    y2 = np.array(r["y2"], dtype=float)
+    try:
+        t = build(r)
+    except Exception as e:
+        ctx.fail("C04/pwa.pinv/raises", type(e).__name__, "PWA construction raised %s" % type(e).__name__, rp)
+        return True
+    obs = oracle_pwa(ctx, t, xs, y2, rp)
+    if obs.get("raised"):
+        return True
+    sp, tp, tl = obs["sp"], obs["tp"], obs["tl"]
+    lines.append("%s pwa %d %s %s %d %s %d %s %d %s" % (cid, len(sp), flat(sp), flat(tp), len(tl),
+                                                       " ".join(str(int(v)) for v in tl.ravel()), len(xs), flat(xs),
+                                                       len(xs) + len(y2), flat(np.vstack([obs["y"], y2]))))
     pend[cid] = ("pwa", obs)
     return True
 
@@ -683,7 +1108,8 @@ def shrink_tps(r):
     while changed and len(cur["src"]) > 4:
         changed = False
         for i in range(len(cur["src"])):
-            cand = dict(cur, src=cur["src"][:i] + cur["src"][i + 1:], tgt=cur["tgt"][:i] + cur["tgt"][i + 1:])
+            cand = dict(cur, src=cur["src"][:i] + cur["src"][i + 1:], tgt=cur["tgt"][:i] + cur["tgt"][i + 1:],
+                        src_as=None, tgt_as=None)
             if not (tps_system_ok(cand["src"]) and tps_system_ok(cand["tgt"])):
                 continue
             m = tps_miss(cand)
@@ -693,22 +1119,18 @@ def shrink_tps(r):
     return cur
 
 
-def case_tps(ctx, r, lines, pend, cid):
+def oracle_tps(ctx, t, pts, rp, r=None):
+    """the property on the real spline `t` as it is now (forward interpolation, reverse fit, landmark return, ends)"""
     import menpo.transform as T
     from menpo.shape import PointCloud
-    rp = {"recipe": r, "python": snippet(r)}
     site = "C04/tps.pinv"
-    ctx.count("class:ThinPlateSplines/%s" % (r["kernel"] or "default"))
-    ctx.count("history:tps:" + str(r.get("history")))
-    pts = np.array(r["pts"], dtype=float)
     try:
-        t = build(r)
         sp, tp = t.source.points.copy(), t.target.points.copy()
         fwd = t.apply(sp)
         f_pts = t.apply(pts)
     except Exception as e:
         ctx.fail("C04/tps/raises", type(e).__name__, "ThinPlateSplines construction/apply raised %s" % type(e).__name__, rp)
-        return True
+        return {"raised": True}
     scale = max(amax(sp), amax(tp), amax(pts))
     # the forward spline interpolates (tps_interpolates; also the sanity of the generated system)
     ctx.check(near(fwd, tp, scale), "C04/tps/interpolates", "missed",
@@ -724,12 +1146,12 @@ def case_tps(ctx, r, lines, pend, cid):
         r_pts = rev.apply(pts)
     except Exception as e:
         ctx.fail(site + "/raises", type(e).__name__, "TPS pseudoinverse/apply raised %s" % type(e).__name__, rp)
-        return True
+        return {"raised": True}
     centres_old = (np.asarray(p.kernel.c).shape == sp.shape and np.array_equal(np.asarray(p.kernel.c), sp))
     pat = "kernel-centred-on-old-source" if centres_old else "missed"
     # the generator bounds the condition number of both spline systems (<= 1e5), so float error stays < 1e-10
     ok_lm = near(lm, sp, scale)
-    if not ok_lm and not any(f[0] == site + "/landmarks" for f in ctx.failures) and \
+    if r is not None and not ok_lm and not any(f[0] == site + "/landmarks" for f in ctx.failures) and \
             not any(k[0] == site + "/landmarks" for k in ctx.known_seen):
         rmin = shrink_tps(r)
         rp = dict(rp, minimal_recipe=rmin, minimal_python=snippet(rmin) +
@@ -746,19 +1168,536 @@ def case_tps(ctx, r, lines, pend, cid):
     ctx.check(type(p) is type(t), site + "/class", "other-class", "pseudoinverse of ThinPlateSplines is a %s" % type(p).__name__, rp)
     ctx.check(np.array_equal(p.source.points, tp) and np.array_equal(p.target.points, sp), site + "/ends", "not-swapped",
               "TPS pseudoinverse does not have source and target exchanged", rp)
+    ctx.check(p.min_singular_val == t.min_singular_val, site + "/options", "min_singular_val-dropped",
+              "TPS pseudoinverse does not keep min_singular_val (%r vs %r)" % (p.min_singular_val, t.min_singular_val), rp)
+    return {"fit": np.vstack([fwd, f_pts]), "pinv": np.vstack([lm, p_pts]), "scale": scale, "rp": rp,
+            "oracle_ok": ok_lm and ok_rev, "sp": sp, "tp": tp, "kcls": kcls}
+
+
+def tps_solve_tie(ctx, t, pts, obs, rp):
+    """ties of the spline theorems to the code and the library:
+    (1) numpy's raw SVD contract on this spline's system matrix (U·diag s·Vh = L, UᵀU = 1, Vh·Vhᵀ = 1, s sorted) — the
+        hypotheses of truncSVD_kept / truncSVD_full — and that nothing is truncated (general position);
+    (2) the coded formula `U[:, :keep]·(1/s[:keep]·Vh[:keep])·yᵀ` on those factors reproduces `coefficients`
+        (the model's `truncInv`), and solves the transposed system as truncSVD_full says;
+    (3) tps_kernel_scale: R2LogR2RBF = 2·R2LogRRBF on every distance of the case (contract of log), and the spline and
+        its pseudoinverse do not depend on which of the two kernel classes is used."""
+    import menpo.transform as T
+    from menpo.shape import PointCloud
+    L = np.array(t.l, dtype=float)
+    n = L.shape[0]
+    u, s_, vh = np.linalg.svd(L)
+    sc = max(amax(L), 1.0)
+    eye = np.eye(n)
+    contract = (near(u.dot(np.diag(s_)).dot(vh), L, sc * n) and near(u.T.dot(u), eye, n) and near(vh.dot(vh.T), eye, n)
+                and bool(np.all(np.diff(s_) <= 0)) and bool(np.all(s_ > 0)))
+    if not contract:
+        raise common.Infra("np.linalg.svd broke its contract (U·diag s·Vh = L, orthonormal factors, sorted s) on a "
+                           "%dx%d spline system" % (n, n))
+    keep = n - int(np.sum(s_ < t.min_singular_val))
+    ctx.count("tps.svd: singular values kept %s" % ("all" if keep == n else "%d of %d" % (keep, n)))
+    inv_l = u[:, :keep].dot(1.0 / s_[:keep, None] * vh[:keep, :])
+    coef = inv_l.dot(np.array(t.y, dtype=float).T)
+    csc = max(amax(coef), amax(t.coefficients), 1.0)
+    cond = float(s_[0] / s_[keep - 1])
+    if not near(coef, t.coefficients, csc * cond * 1e-3):
+        ctx.mismatch("tps.coefficients", "coefficients differ from the coded truncated-SVD formula on numpy's factors "
+                     "(max diff %.3g)" % amax(coef - np.asarray(t.coefficients)), rp)
+    if keep == n and not near(L.T.dot(np.asarray(t.coefficients)), np.array(t.y, dtype=float).T, sc * cond * 1e-3):
+        ctx.mismatch("tps.system", "coefficients do not solve Lᵀ·C = Y although every singular value is kept "
+                     "(truncSVD_full)", rp)
+    # (3) the two kernel classes
+    sp, tp = obs["sp"], obs["tp"]
+    k1, k2 = T.R2LogRRBF(sp.copy()).apply(np.vstack([tp, pts])), T.R2LogR2RBF(sp.copy()).apply(np.vstack([tp, pts]))
+    if not near(k2, 2.0 * k1, max(amax(k2), 1.0)):
+        ctx.mismatch("tps.kernel-scale", "R2LogR2RBF is not 2·R2LogRRBF on the distances of this case", rp)
+    other = T.R2LogRRBF if obs["kcls"] is T.R2LogR2RBF else T.R2LogR2RBF
+    try:
+        t2 = T.ThinPlateSplines(PointCloud(sp), PointCloud(tp), kernel=other(sp.copy()), min_singular_val=t.min_singular_val)
+        f2 = t2.apply(pts)
+        p2 = t2.pseudoinverse().apply(np.vstack([tp, pts]))
+    except Exception as e:      # noqa: BLE001
+        ctx.mismatch("tps.kernel-scale", "the spline with kernel %s raised %s" % (other.__name__, type(e).__name__), rp)
+        return
+    n_lm = len(sp)
+    tol_sc = max(obs["scale"], amax(obs["pinv"]), amax(obs["fit"])) * 1e2
+    if not (near(f2, obs["fit"][n_lm:], tol_sc) and near(p2, obs["pinv"], tol_sc)):
+        ctx.mismatch("tps.kernel-scale", "the spline / its pseudoinverse differ between R2LogRRBF and R2LogR2RBF "
+                     "(tps_kernel_scale): %r vs %r" % (np.asarray(p2).tolist(), obs["pinv"].tolist()), rp)
+
+
+def case_tps(ctx, r, lines, pend, cid):
+    rp = {"recipe": r, "python": snippet(r)}
+    ctx.count("class:ThinPlateSplines/%s" % (r["kernel"] or "default"))
+    ctx.count("history:tps:" + str(r.get("history")))
+    ctx.count("tps:landmarks:%d/min_singular_val:%s" % (len(r["src"]), r.get("msv")))
+    pts = np.array(r["pts"], dtype=float)
+    try:
+        t = build(r)
+    except Exception as e:
+        ctx.fail("C04/tps/raises", type(e).__name__, "ThinPlateSplines construction raised %s" % type(e).__name__, rp)
+        return True
+    obs = oracle_tps(ctx, t, pts, rp, r)
+    if obs.get("raised"):
+        return True
+    sp, tp, kcls = obs["sp"], obs["tp"], obs["kcls"]
+    tps_solve_tie(ctx, t, pts, obs, rp)
     # model lines: forward fit, repaired inverse, inverse as coded
     allp = r["src"] + r["tgt"] + r["pts"]
     tab = kernel_table(kcls, allp, r["src"] + r["tgt"])
     tabs = " ".join("%s %s" % (common.fq(q), common.fq(v)) for q, v in tab.items())
-    flat = lambda a: common.fqs(np.asarray(a, dtype=float).ravel())
     n = len(sp)
     evalp = np.vstack([tp, pts])
     for mode, pp in (("fit", np.vstack([sp, pts])), ("pinvFixed", evalp), ("pinvCoded", evalp)):
         lines.append("%s.%s tps %s %d %s %s %d %s %d %s" % (cid, mode, mode, n, flat(sp), flat(tp), len(tab), tabs,
                                                            len(pp), flat(pp)))
-    obs = {"fit": np.vstack([fwd, f_pts]), "pinv": np.vstack([lm, p_pts]), "scale": scale, "rp": rp,
-           "oracle_ok": ok_lm and ok_rev}
     pend[cid] = ("tps", obs)
+    return True
+
+
+# ----------------------------------------------------------------------------- float-exact meshes: edges, vertices, outside
+
+def gen_pwax(rng):
+    """A piecewise affine warp between two row-sheared lattices scaled by powers of two.  Every triangle has a Gram
+    determinant that is a power of two, all coordinates are small dyadic numbers, so EVERY intermediate of alpha_beta,
+    of the containment test and of _apply is a float64 exactly: points exactly on shared edges, on vertices and just
+    outside the mesh are decided by the implementation as by real arithmetic, and the round trip must hold to the bit."""
+    nx, ny = rng.randint(2, 4), rng.randint(2, 4)
+
+    def lattice():
+        sh = [rng.randint(-1, 1) for _ in range(ny)]
+        sc = rng.choice([0.5, 1.0, 2.0])
+        t = [rng.randint(-8, 8) / 2.0, rng.randint(-8, 8) / 2.0]
+        swap = rng.random() < 0.3
+        pts = []
+        for j in range(ny):
+            for i in range(nx):
+                p = [(i + sh[j]) * sc + t[0], j * sc + t[1]]
+                pts.append(p[::-1] if swap else p)
+        return pts
+
+    src, tgt = lattice(), lattice()
+    tris = []
+    for j in range(ny - 1):
+        for i in range(nx - 1):
+            a, b, c, e = j * nx + i, j * nx + i + 1, (j + 1) * nx + i + 1, (j + 1) * nx + i
+            for t in ([[a, b, c], [a, c, e]] if rng.random() < 0.5 else [[a, b, e], [b, c, e]]):
+                rng.shuffle(t)
+                tris.append(t)
+    rng.shuffle(tris)
+    xs = []
+    for _ in range(10):
+        t = rng.choice(tris)
+        a, b, c = (src[i] for i in t)
+        kind = rng.choice(["vertex", "edge", "edge", "interior"])
+        if kind == "vertex":
+            w = rng.choice([(8, 0, 0), (0, 8, 0), (0, 0, 8)])
+        elif kind == "edge":
+            u = rng.randint(1, 7)
+            w = rng.choice([(u, 8 - u, 0), (0, u, 8 - u), (u, 0, 8 - u)])
+        else:
+            u = rng.randint(1, 6)
+            v = rng.randint(1, 7 - u)
+            w = (u, v, 8 - u - v)
+        xs.append([(w[0] * a[k] + w[1] * b[k] + w[2] * c[k]) / 8.0 for k in range(2)])
+    # outside: beyond a boundary edge by a small dyadic step, and far away
+    out = []
+    lo = [min(p[k] for p in src) for k in range(2)]
+    hi = [max(p[k] for p in src) for k in range(2)]
+    for _ in range(3):
+        k = rng.randint(0, 1)
+        p = [rng.randint(-4, 20) / 4.0, rng.randint(-4, 20) / 4.0]
+        p[k] = (lo[k] - rng.choice([1 / 64.0, 0.5, 3.0])) if rng.random() < 0.5 else (hi[k] + rng.choice([1 / 64.0, 0.5, 3.0]))
+        out.append(p)
+    return {"kind": "pwax", "cls": rng.choice(["PythonPWA", "CachedPWA", "PiecewiseAffine"]), "src": src, "tgt": tgt,
+            "trilist": tris, "xs": xs, "out": out}
+
+
+def case_pwax(ctx, r, lines, pend, cid):
+    from menpo.shape import PointCloud, TriMesh
+    from menpo.transform.piecewiseaffine.base import TriangleContainmentError
+    rp = {"recipe": r, "python": snippet(dict(r, kind="pwa"))}
+    site = "C04/pwa.pinv"
+    ctx.count("class:%s/exact-lattice" % r["cls"])
+    src, tris = r["src"], r["trilist"]
+    xs = np.array(r["xs"], dtype=float)
+    allp = np.array(r["xs"] + r["out"], dtype=float)
+    inside = np.array([len(holders(src, tris, p)) > 0 for p in allp.tolist()])     # exact, independent of the model
+    try:
+        t = build(dict(r, kind="pwa"))
+        p = t.pseudoinverse()
+        y = t.apply(xs)
+        back = p.apply(y)
+        fwd = t.apply(back)
+        idx, al, be = t.index_alpha_beta(xs)
+    except Exception as e:
+        ctx.fail(site + "/raises", type(e).__name__, "PWA pseudoinverse/apply raised %s on points of the closed source "
+                 "domain of a lattice mesh (vertices, edge points, interior points)" % type(e).__name__, rp)
+        return True
+    mask = None
+    try:
+        t.apply(allp)
+    except TriangleContainmentError as e:
+        mask = np.asarray(e.points_outside_source_domain, dtype=bool)
+    except Exception as e:
+        ctx.fail(site + "/raises", type(e).__name__, "PWA apply raised %s instead of TriangleContainmentError" % type(
+            e).__name__, rp)
+        return True
+    ctx.count("pwax:vertex/edge/interior probes", len(xs))
+    ctx.check(np.array_equal(back, xs), site + "/left", "roundtrip-exact",
+              "pinv.apply(t.apply(x)) != x on vertices / edge points / interior points of a float-exact lattice mesh: "
+              "%r vs %r" % (np.asarray(back).tolist(), xs.tolist()), rp)
+    ctx.check(np.array_equal(fwd, y), site + "/right", "roundtrip-exact",
+              "t.apply(pinv.apply(y)) != y on a float-exact lattice mesh", rp)
+    exp_mask = ~inside
+    ctx.check((mask is None and not exp_mask.any()) or (mask is not None and mask.shape == exp_mask.shape and
+                                                        np.array_equal(mask, exp_mask)),
+              "C04/pwa.domain", "containment-mask", "TriangleContainmentError mask %r differs from the exact containment "
+              "%r (points %r)" % (None if mask is None else mask.tolist(), exp_mask.tolist(), allp.tolist()), rp)
+    obs = {"idx": np.asarray(idx).astype(int), "al": np.asarray(al, dtype=float), "be": np.asarray(be, dtype=float),
+           "y": np.asarray(y), "back": np.asarray(back), "mask": mask, "scale": 1.0, "rp": rp, "n_in": len(xs)}
+    sp, tp, tl = t.source.points, t.target.points, np.array(t.trilist)
+    lines.append("%s pwaidx %d %s %s %d %s %d %s" % (cid, len(sp), flat(sp), flat(tp), len(tl),
+                                                    " ".join(str(int(v)) for v in tl.ravel()), len(allp), flat(allp)))
+    pend[cid] = ("pwax", obs)
+    return True
+
+
+# ----------------------------------------------------------------------------- objects with a history (operation lists)
+
+def legal_mutators(cls, d):
+    """the public in-place operations of a family class (set_h_matrix is refused by every class: h_matrix_is_mutable is
+    False throughout)"""
+    base = cls.replace("Alignment", "")
+    m = ["compose_before", "compose_after"]
+    if base in ("Homogeneous", "Affine", "Translation", "UniformScale", "NonUniformScale") or \
+            (base == "Similarity" and d == 2) or (base == "Rotation" and d == 3):
+        m += ["from_vector", "compose_after_from_vector"]
+    if base == "Rotation":
+        m.append("set_rotation_matrix")
+    m.append("set_h_matrix")          # refused by every class today (NotImplementedError): must leave the object as it was
+    if cls.startswith("Alignment"):
+        m += ["set_target", "set_target", "set_target"]
+    return m
+
+
+def _goal(rng, cls, d):
+    """parameters of a member of the non-alignment class `cls` (what a mutator brings in)"""
+    g = gen_hom(rng, cls, d, history=False)
+    g.pop("xs")
+    g.pop("x2")
+    return g
+
+
+def gen_homops(rng, cls=None, d=None):
+    """one live object of a family class and a list of operations on it: pseudoinverse() queries (always one at the end,
+    usually one at the start - a memo would be taken then) interleaved with every public mutator the class has"""
+    cls = cls or rng.choice(FAMILY)
+    d = d or rng.choice([2, 3])
+    base = cls.replace("Alignment", "")
+    init = gen_hom(rng, cls, d, history=False)
+    muts = legal_mutators(cls, d)
+    ops = []
+
+    def query():
+        return ["q", gen_points(rng, d, 3), gen_points(rng, d, 2)]
+
+    if rng.random() < 0.8:
+        ops.append(query())
+    for _ in range(rng.randint(1, 4)):
+        k = rng.choice(muts)
+        if k == "set_target":
+            ops.append([k, gen_target(rng, init["source"], d), gen_shape_spec(rng, len(init["source"]), d)])
+        elif k == "set_rotation_matrix":
+            ops.append([k, fl(rat_rotation(rng, d))])
+        else:
+            partner = rng.choice(["NonUniformScale", "UniformScale"]) if base == "NonUniformScale" and \
+                k in ("compose_before", "compose_after") else base
+            ops.append([k, _goal(rng, partner, d)])
+        u = rng.random()
+        if u < 0.5:
+            ops.append(query())
+        elif u < 0.65:
+            ops.append(["apply", gen_points(rng, d, 2)])
+    if ops[-1][0] != "q":
+        ops.append(query())
+    return {"kind": "homops", "cls": cls, "d": d, "init": init, "ops": ops}
+
+
+def run_mutator(t, op):
+    """execute one mutator of an operation list on the real object; returns the matrix of the other operand
+    (compositions) or None"""
+    import warnings
+    from menpo.base import MenpoDeprecationWarning
+    k = op[0]
+    with warnings.catch_warnings():
+        warnings.simplefilter("ignore", MenpoDeprecationWarning)
+        if k == "set_target":
+            t.set_target(make_shape(op[2], op[1]))
+        elif k == "set_rotation_matrix":
+            t.set_rotation_matrix(np.array(op[1], dtype=float))
+        elif k == "set_h_matrix":
+            try:
+                t.set_h_matrix(np.array(_build_fresh(op[1]).h_matrix, dtype=float))
+            except NotImplementedError:
+                return "refused"
+        elif k == "from_vector":
+            t.from_vector_inplace(_build_fresh(op[1]).as_vector())
+        elif k == "compose_before":
+            o = _build_fresh(op[1])
+            t.compose_before_inplace(o)
+            return np.array(o.h_matrix, dtype=float)
+        elif k == "compose_after":
+            o = _build_fresh(op[1])
+            t.compose_after_inplace(o)
+            return np.array(o.h_matrix, dtype=float)
+        elif k == "compose_after_from_vector":
+            v = _build_fresh(op[1]).as_vector()
+            m = np.array(t.from_vector(v).h_matrix, dtype=float)
+            t.compose_after_from_vector_inplace(v)
+            return m
+        else:
+            raise ValueError(k)
+    return None
+
+
+def run_ops(r):
+    """replay helper: the live object of an operation-list recipe after all its operations, and every pseudoinverse"""
+    t = _build_fresh(r["init"])
+    out = []
+    for op in r["ops"]:
+        if op[0] == "q":
+            out.append(t.pseudoinverse())
+        elif op[0] == "apply":
+            t.apply(np.array(op[1], dtype=float))
+        elif r["kind"] == "homops":
+            run_mutator(t, op)
+        else:
+            t.set_target(make_shape(op[2], op[1]))
+    return t, out
+
+
+def ops_snippet(r):
+    return ("import sys; sys.path.insert(0, '/verif'); sys.path.insert(0, '/repo'); import numpy as np\n"
+            "from harness import c04\nt, pinvs = c04.run_ops(%r)   # pinvs[k] = the k-th pseudoinverse() taken" % (r,))
+
+
+class _Ids(object):
+    """small integers for landmark sets, by content"""
+    def __init__(self):
+        self.m = {}
+
+    def __call__(self, pc):
+        a = np.ascontiguousarray(pc.points, dtype=float)
+        return self.m.setdefault((a.shape, a.tobytes()), len(self.m))
+
+
+def case_homops(ctx, r, lines, pend, cid):
+    cls, d = r["cls"], r["d"]
+    rp = {"recipe": r, "python": ops_snippet(r)}
+    is_al = cls.startswith("Alignment")
+    try:
+        t = _build_fresh(r["init"])
+    except Exception:      # noqa: BLE001 - construction is C07's subject
+        return False
+    pid = _Ids()
+    h0 = np.array(t.h_matrix, dtype=float)
+    head = "%s ops %s %d %s " % (cid, cls, d, common.fqs(h0.ravel()))
+    head += ("1 %d %d" % (pid(t.source), pid(t.target))) if is_al else "0"
+    toks, obs_list, kinds = [], [], []
+    for op in r["ops"]:
+        k = op[0]
+        if k == "q":
+            xs, x2 = np.array(op[1], dtype=float), np.array(op[2], dtype=float)
+            obs = oracle_hom(ctx, t, cls, d, xs, x2, dict(rp, query_index=len(obs_list)))
+            if obs is None:
+                return False
+            if obs.get("raised"):
+                ctx.count("class:%s/%dD" % (cls, d))
+                return True
+            pr = obs.pop("p")
+            obs["ends"] = (pid(pr.source), pid(pr.target)) if is_al and hasattr(pr, "source") else None
+            obs_list.append(obs)
+            toks.append("q %d %s" % (len(xs), common.fqs(np.asarray(obs["y"], dtype=float).ravel())))
+            continue
+        if k == "apply":
+            t.apply(np.array(op[1], dtype=float))
+            continue
+        before = pid(t.target) if is_al else None
+        try:
+            m = run_mutator(t, op)
+        except Exception as e:      # noqa: BLE001 - the mutators are the subject of C03 / C05 / C08
+            ctx.count("ops:mutator-raised:%s:%s" % (k, type(e).__name__))
+            return False
+        if isinstance(m, str) and m == "refused":
+            kinds.append("set_h_matrix(refused)")       # the model does nothing: the object must be unchanged
+            continue
+        kinds.append(k)
+        h = np.array(t.h_matrix, dtype=float)
+        if not np.all(np.isfinite(h)):
+            return False
+        tid = "-"
+        if is_al:
+            now = pid(t.target)
+            tid = str(now) if (now != before or k == "set_target") else "-"
+        if k == "set_target":
+            toks.append("st %s %s" % (tid, common.fqs(h.ravel())))
+        elif k in ("from_vector", "set_rotation_matrix", "set_h_matrix"):
+            toks.append("ss %s %s" % (tid, common.fqs(h.ravel())))
+        elif k == "compose_before":
+            toks.append("cb %s %s" % (tid, common.fqs(m.ravel())))
+        else:
+            toks.append("ca %s %s" % (tid, common.fqs(m.ravel())))
+    ctx.count("class:%s/%dD" % (cls, d))
+    ctx.count("ops:hom:queries", len(obs_list))
+    for k in kinds:
+        ctx.count("ops:hom:" + k)
+    lines.append("%s %d %s" % (head, len(toks), " ".join(toks)))
+    pend[cid] = ("homops", {"q": obs_list, "rp": rp, "scale": max(o["scale"] for o in obs_list)})
+    return True
+
+
+def gen_pwaops(rng):
+    """a live piecewise affine warp: queries interleaved with set_target (targets of every shape class) and apply"""
+    init = gen_pwa(rng, history=False)
+    nx, ny = init["grid"]
+    src, tris, alt = init["src"], init["trilist"], init["alt"]
+    cur = init["tgt"]
+    ops = []
+
+    prev = []
+
+    def query():
+        for _ in range(50):
+            # half of the later queries probe the very points of the first one again: the caching warp class then
+            # answers apply() from its memo although the target has changed in between
+            xs = prev[0] if prev and rng.random() < 0.5 else pwa_interior(rng, src, tris, 3)
+            y2 = pwa_interior(rng, cur, tris, 3)
+            if probes_unambiguous(src, cur, tris, xs, True) and probes_unambiguous(src, cur, tris, y2, False):
+                prev.append(xs)
+                return ["q", xs, y2]
+        return None
+
+    if rng.random() < 0.8:
+        ops.append(query())
+    for _ in range(rng.randint(1, 3)):
+        while True:
+            tgt = pwa_target(rng, nx, ny, src, tris)
+            if tgt is not None:
+                break
+        cur = tgt
+        ops.append(["set_target", tgt, pwa_target_spec(rng, rng.choice(PWA_TGT_KINDS), len(src), tris, alt)])
+        u = rng.random()
+        if u < 0.5:
+            ops.append(query())
+        elif u < 0.7:
+            ops.append(["apply", pwa_interior(rng, src, tris, 2)])
+    if ops[-1] is None or ops[-1][0] != "q":
+        ops.append(query())
+    if any(o is None for o in ops):
+        return gen_pwaops(rng)
+    return {"kind": "pwaops", "cls": init["cls"], "init": init, "ops": ops}
+
+
+def case_pwaops(ctx, r, lines, pend, cid):
+    rp = {"recipe": r, "python": ops_snippet(r)}
+    ctx.count("class:%s" % r["cls"])
+    try:
+        t = _build_fresh(r["init"])
+        sp0, tp0, tl0 = t.source.points.copy(), t.target.points.copy(), np.array(t.trilist).copy()
+    except Exception as e:
+        ctx.fail("C04/pwa.pinv/raises", type(e).__name__, "PWA construction raised %s" % type(e).__name__, rp)
+        return True
+    toks, obs_list = [], []
+    for op in r["ops"]:
+        if op[0] == "q":
+            xs, y2 = np.array(op[1], dtype=float), np.array(op[2], dtype=float)
+            obs = oracle_pwa(ctx, t, xs, y2, dict(rp, query_index=len(obs_list)))
+            if obs.get("raised"):
+                return True
+            obs_list.append(obs)
+            toks.append("q %d %s" % (len(xs) + len(y2), flat(np.vstack([obs["y"], y2]))))
+        elif op[0] == "apply":
+            t.apply(np.array(op[1], dtype=float))
+        else:
+            try:
+                t.set_target(make_shape(op[2], op[1]))
+            except Exception as e:
+                ctx.fail("C04/pwa.set_target/raises", type(e).__name__, "PWA.set_target raised %s for a %s target" % (
+                    type(e).__name__, (op[2] or {}).get("cls")), rp)
+                return True
+            ctx.count("ops:pwa:set_target:%s" % (op[2] or {}).get("cls"))
+            toks.append("st %s" % flat(t.target.points))
+    ctx.count("ops:pwa:queries", len(obs_list))
+    lines.append("%s pwaops %d %s %s %d %s %d %s" % (cid, len(sp0), flat(sp0), flat(tp0), len(tl0),
+                                                    " ".join(str(int(v)) for v in tl0.ravel()), len(toks), " ".join(toks)))
+    pend[cid] = ("pwaops", {"q": obs_list, "rp": rp, "scale": max(o["scale"] for o in obs_list)})
+    return True
+
+
+def gen_tpsops(rng):
+    """a live spline: queries interleaved with set_target"""
+    init = gen_tps(rng, history=False)
+    src = init["src"]
+    ops = []
+
+    def query():
+        return ["q", [[rng.randint(-16, 16) / 4.0, rng.randint(-16, 16) / 4.0] for _ in range(2)]]
+
+    if rng.random() < 0.8:
+        ops.append(query())
+    for _ in range(rng.randint(1, 2)):
+        while True:
+            tgt = tps_target(rng, src)
+            if tgt is not None:
+                break
+        ops.append(["set_target", tgt, gen_shape_spec(rng, len(src), 2)])
+        if rng.random() < 0.5:
+            ops.append(query())
+    if ops[-1][0] != "q":
+        ops.append(query())
+    return {"kind": "tpsops", "init": init, "ops": ops}
+
+
+def case_tpsops(ctx, r, lines, pend, cid):
+    rp = {"recipe": r, "python": ops_snippet(r)}
+    init = r["init"]
+    ctx.count("class:ThinPlateSplines/%s" % (init["kernel"] or "default"))
+    try:
+        t = _build_fresh(init)
+        sp0, tp0 = t.source.points.copy(), t.target.points.copy()
+        kcls = type(t.kernel)
+    except Exception as e:
+        ctx.fail("C04/tps/raises", type(e).__name__, "ThinPlateSplines construction raised %s" % type(e).__name__, rp)
+        return True
+    toks, obs_list = [], []
+    allp, ctrs = [list(map(float, p)) for p in sp0.tolist()], []
+    for op in r["ops"]:
+        if op[0] == "q":
+            pts = np.array(op[1], dtype=float)
+            obs = oracle_tps(ctx, t, pts, dict(rp, query_index=len(obs_list)))
+            if obs.get("raised"):
+                return True
+            obs_list.append(obs)
+            ev = np.vstack([obs["tp"], pts])
+            allp += ev.tolist()
+            ctrs += obs["tp"].tolist()
+            toks.append("q %d %s" % (len(ev), flat(ev)))
+        else:
+            try:
+                t.set_target(make_shape(op[2], op[1]))
+            except Exception as e:
+                ctx.fail("C04/tps.set_target/raises", type(e).__name__, "TPS.set_target raised %s for a %s target" % (
+                    type(e).__name__, (op[2] or {}).get("cls")), rp)
+                return True
+            ctx.count("ops:tps:set_target:%s" % (op[2] or {}).get("cls"))
+            toks.append("st %s" % flat(t.target.points))
+    ctx.count("ops:tps:queries", len(obs_list))
+    tab = kernel_table(kcls, allp, ctrs)
+    tabs = " ".join("%s %s" % (common.fq(q), common.fq(v)) for q, v in tab.items())
+    lines.append("%s tpsops %d %s %s %d %s %d %s" % (cid, len(sp0), flat(sp0), flat(tp0), len(tab), tabs,
+                                                    len(toks), " ".join(toks)))
+    pend[cid] = ("tpsops", {"q": obs_list, "rp": rp, "scale": max(o["scale"] for o in obs_list)})
     return True
 
 
@@ -793,14 +1732,15 @@ def compare(ctx, pend, model):
                 ctx.mismatch("hom", "model says %r, implementation inverted the matrix" % rep, rp)
                 continue
             g = parse_groups(rep)
+            tl_ = o.get("tol")
             mh = np.array([float(Fraction(x)) for x in g[0]]).reshape(d + 1, d + 1)
-            if not near(mh, o["ph"], max(sc, amax(mh))):
+            if not near(mh, o["ph"], max(sc, amax(mh)), tl_):
                 ctx.mismatch("hom.h_matrix", "model inverse %r vs implementation %r" % (mh.tolist(), o["ph"].tolist()), rp)
             if o["cls"] != rp["recipe"]["cls"]:
                 ctx.mismatch("hom.class", "model keeps class %s, implementation returned %s" % (rp["recipe"]["cls"], o["cls"]), rp)
-            if not near(nums(g[1], d), o["y"], sc):
+            if not near(nums(g[1], d), o["y"], sc, tl_):
                 ctx.mismatch("hom.apply", "model t.apply %r vs implementation %r" % (nums(g[1], d).tolist(), o["y"].tolist()), rp)
-            if not near(nums(g[2], d), o["back"], sc):
+            if not near(nums(g[2], d), o["back"], sc, tl_):
                 ctx.mismatch("hom.pinv.apply", "model pinv.apply %r vs implementation %r" % (
                     nums(g[2], d).tolist(), o["back"].tolist()), rp)
         elif kind == "tcoords":
@@ -819,9 +1759,108 @@ def compare(ctx, pend, model):
         elif kind == "pwa":
             rep = model[cid]
             g = parse_groups(rep)
-            if not (near(nums(g[0], 2), o["y"], sc) and near(nums(g[1], 2), o["back"], sc)):
+            ib = np.vstack([o["back"], o["x3"]])
+            ctx.count("pwa:certified-triangulation:%s" % (g[2][0] if len(g) > 2 and g[2] else "?"))
+            if not (near(nums(g[0], 2), o["y"], sc) and near(nums(g[1], 2), ib, sc)):
                 ctx.mismatch("pwa.apply", "model %r / %r vs implementation %r / %r" % (
-                    nums(g[0], 2).tolist(), nums(g[1], 2).tolist(), o["y"].tolist(), o["back"].tolist()), rp)
+                    nums(g[0], 2).tolist(), nums(g[1], 2).tolist(), o["y"].tolist(), ib.tolist()), rp)
+        elif kind == "pwax":
+            rep = model[cid]
+            g = rep[3:].split("|") if rep.startswith("ok") else []
+            if len(g) != 4:
+                ctx.mismatch("pwax", "model answered %r" % rep[:200], rp)
+                continue
+            toks = g[0].split()
+            rows, i = [], 0
+            while i < len(toks):
+                if toks[i] == "none":
+                    rows.append(None)
+                    i += 1
+                else:
+                    rows.append((int(toks[i]), Fraction(toks[i + 1]), Fraction(toks[i + 2])))
+                    i += 3
+            n_in = o["n_in"]
+            m_mask = [x is None for x in rows]
+            i_mask = [False] * len(rows) if o["mask"] is None else [bool(v) for v in o["mask"]]
+            if m_mask != i_mask:
+                ctx.mismatch("pwax.domain", "model containment-error mask %r vs implementation %r" % (m_mask, i_mask), rp)
+                continue
+            ok_idx = all(rows[k] is not None and rows[k][0] == int(o["idx"][k]) and float(rows[k][1]) == float(o["al"][k])
+                         and float(rows[k][2]) == float(o["be"][k]) for k in range(n_in))
+            if not ok_idx:
+                ctx.mismatch("pwax.index_alpha_beta", "model (index, alpha, beta) %r vs implementation %r" % (
+                    [None if x is None else (x[0], float(x[1]), float(x[2])) for x in rows[:n_in]],
+                    list(zip(o["idx"].tolist(), o["al"].tolist(), o["be"].tolist()))), rp)
+            ma, mb = nums(g[1].split(), 2)[:n_in], nums(g[2].split(), 2)[:n_in]
+            if not (np.array_equal(ma, o["y"]) and np.array_equal(mb, o["back"])):
+                ctx.mismatch("pwax.apply", "model images / round trip %r / %r vs implementation %r / %r (exact comparison)" % (
+                    ma.tolist(), mb.tolist(), o["y"].tolist(), o["back"].tolist()), rp)
+            ctx.count("pwa:certified-triangulation:%s" % g[3].strip())
+            if g[3].strip() != "1":
+                ctx.mismatch("pwax.certificate", "the lattice mesh (a triangulation by construction) is not certified "
+                             "by the model's executable check", rp)
+        elif kind == "homops":
+            rep = model[cid]
+            d = rp["recipe"]["d"]
+            g = parse_groups(rep) if rep.startswith("ok") else []
+            if len(g) != 4 * len(o["q"]):
+                ctx.mismatch("ops.hom", "model answered %r for %d queries" % (rep[:200], len(o["q"])), rp)
+                continue
+            for qi, q in enumerate(o["q"]):
+                cur, ph, ends, ap = g[4 * qi:4 * qi + 4]
+                where = "query %d of the operation list" % qi
+                mc = np.array([float(Fraction(x)) for x in cur]).reshape(d + 1, d + 1)
+                if not near(mc, q["h"], max(q["scale"], amax(mc)), q.get("tol")):
+                    ctx.mismatch("ops.hom.state", "%s: model state %r vs implementation h_matrix %r" % (
+                        where, mc.tolist(), q["h"].tolist()), rp)
+                    break
+                if ph == ["singular"]:
+                    ctx.mismatch("ops.hom.pinv", "%s: model says singular, implementation inverted" % where, rp)
+                    break
+                mh = np.array([float(Fraction(x)) for x in ph]).reshape(d + 1, d + 1)
+                if not near(mh, q["ph"], max(q["scale"], amax(mh)), q.get("tol")):
+                    ctx.mismatch("ops.hom.pinv.h_matrix", "%s: model inverse of the current state %r vs implementation %r" % (
+                        where, mh.tolist(), q["ph"].tolist()), rp)
+                    break
+                if q["cls"] != rp["recipe"]["cls"]:
+                    ctx.mismatch("ops.hom.pinv.class", "%s: model keeps class %s, implementation returned %s" % (
+                        where, rp["recipe"]["cls"], q["cls"]), rp)
+                    break
+                me = None if ends == ["-"] else (int(ends[0]), int(ends[1]))
+                if me != q["ends"]:
+                    ctx.mismatch("ops.hom.pinv.ends", "%s: model end points (ids) %r vs implementation %r" % (
+                        where, me, q["ends"]), rp)
+                    break
+                if not near(nums(ap, d), q["back"], q["scale"], q.get("tol")):
+                    ctx.mismatch("ops.hom.pinv.apply", "%s: model pinv.apply %r vs implementation %r" % (
+                        where, nums(ap, d).tolist(), q["back"].tolist()), rp)
+                    break
+        elif kind == "pwaops":
+            rep = model[cid]
+            g = parse_groups(rep) if rep.startswith("ok") else []
+            if len(g) != 2 * len(o["q"]):
+                ctx.mismatch("ops.pwa", "model answered %r for %d queries" % (rep[:200], len(o["q"])), rp)
+                continue
+            for qi, q in enumerate(o["q"]):
+                ib = np.vstack([q["back"], q["x3"]])
+                ctx.count("pwa:certified-triangulation:%s" % (g[2 * qi + 1][0] if g[2 * qi + 1] else "?"))
+                if not near(nums(g[2 * qi], 2), ib, q["scale"]):
+                    ctx.mismatch("ops.pwa.pinv.apply", "query %d: model pinv.apply %r vs implementation %r" % (
+                        qi, nums(g[2 * qi], 2).tolist(), ib.tolist()), rp)
+                    break
+        elif kind == "tpsops":
+            rep = model[cid]
+            g = parse_groups(rep) if rep.startswith("ok") else []
+            if len(g) != len(o["q"]):
+                ctx.mismatch("ops.tps", "model answered %r for %d queries" % (rep[:200], len(o["q"])), rp)
+                continue
+            for qi, q in enumerate(o["q"]):
+                tol_sc = max(q["scale"], amax(q["pinv"]))
+                if g[qi] == ["singular"] or not near(nums(g[qi], 2), q["pinv"], tol_sc):
+                    if q["oracle_ok"]:
+                        ctx.mismatch("ops.tps.pinv", "query %d: model reverse fit of the current state %r vs implementation %r" % (
+                            qi, " ".join(g[qi])[:300], q["pinv"].tolist()), rp)
+                    break
         elif kind == "tps":
             reps = {m: model["%s.%s" % (cid, m)] for m in ("fit", "pinvFixed", "pinvCoded")}
             tol_sc = max(sc, amax(o["pinv"]), amax(o["fit"]))
@@ -845,7 +1884,8 @@ def compare(ctx, pend, model):
 
 # ----------------------------------------------------------------------------- run / search / replay
 
-CASE_FN = {"hom": case_hom, "tcoords": case_tcoords, "pwa": case_pwa, "tps": case_tps}
+CASE_FN = {"hom": case_hom, "tcoords": case_tcoords, "pwa": case_pwa, "tps": case_tps,
+           "homops": case_homops, "pwaops": case_pwaops, "tpsops": case_tpsops, "pwax": case_pwax}
 
 
 def nontrivial(r):
@@ -867,24 +1907,38 @@ def gen_case(rng, kind, k):
     if kind == "hom":
         # cycle deterministically through class × dimension so every run covers all 24 combinations
         return gen_hom(rng, FAMILY[k % 12], 2 + (k // 12) % 2)
-    return {"tcoords": gen_tcoords, "pwa": gen_pwa, "tps": gen_tps}[kind](rng)
+    if kind == "homops":
+        return gen_homops(rng, FAMILY[k % 12], 2 + (k // 12) % 2)
+    return {"tcoords": gen_tcoords, "pwa": gen_pwa, "tps": gen_tps, "pwaops": gen_pwaops, "tpsops": gen_tpsops,
+            "pwax": gen_pwax}[kind](rng)
 
 
 def search(ctx):
     """directed search after a broken tie: oracle only, many more cases of every family, until a failure shows"""
     rng = ctx.rng
     dummy_lines, dummy_pend = [], {}
-    plan = [("hom", 1200), ("pwa", 150), ("tps", 80), ("tcoords", 60)]
+    plan = [("hom", 1200), ("homops", 480), ("pwa", 150), ("pwaops", 60), ("pwax", 80), ("tps", 80), ("tpsops", 40), ("tcoords", 60)]
     # neighbours of the mismatching cases first: same class / kind, fresh parameters
     first = []
     for op, _, rp in ctx.mismatches[:20]:
         rec = (rp or {}).get("recipe") or {}
-        if rec.get("kind") == "hom":
-            first += [("hom1", rec["cls"], rec["d"])] * 40
+        if rec.get("kind") in ("hom", "homops"):
+            first += [("hom1", rec["cls"], rec["d"])] * 20 + [("homops1", rec["cls"], rec["d"])] * 20
         elif rec.get("kind"):
             first += [(rec["kind"],)] * 20
+    # a broken write-table obligation names the classes whose pseudoinverse() now keeps state on the instance: histories of
+    # exactly those classes first (query, mutate, query is where a memo shows)
+    for bo in ctx.broken_obligations[:3]:
+        for c in sorted((bo.get("observed_attribute_writes_of_pseudoinverse") or {})):
+            if c in FAMILY:
+                first += [("homops1", c, 2)] * 15 + [("homops1", c, 3)] * 15
+            elif c == "ThinPlateSplines":
+                first += [("tpsops",)] * 20
+            elif c in ("PythonPWA", "CachedPWA"):
+                first += [("pwaops",)] * 20
     for item in first:
-        r = gen_hom(rng, item[1], item[2]) if item[0] == "hom1" else gen_case(rng, item[0], 0)
+        r = gen_hom(rng, item[1], item[2]) if item[0] == "hom1" else (
+            gen_homops(rng, item[1], item[2]) if item[0] == "homops1" else gen_case(rng, item[0], 0))
         CASE_FN[r["kind"]](ctx, r, dummy_lines, dummy_pend, "s")
         ctx.searched += 1
         if ctx.failures:
@@ -899,14 +1953,41 @@ def search(ctx):
     return False
 
 
+def generated(ctx):
+    """regenerate the dispatch / write tables from the live classes and re-check the obligations over them"""
+    from . import extract_c04 as ex
+    text, rows, writes, fam = ex.generate()
+    ctx.notes["pseudoinverse_dispatch"] = {r[0]: list(r[1:]) for r in rows}
+    ctx.notes["pseudoinverse_write_table"] = writes
+    ok = common.build_generated(ctx, {ex.GEN_REL: text}, ex.GEN_TARGETS, ex.N_OBLIGATIONS)
+    if not ok and ctx.broken_obligations:
+        bo = ctx.broken_obligations[-1]
+        bo["obligation"] = "MenpoModel.GenProps.C04 (dispatch_ok / family_ok / pinvWrites_ok / no_writes_live)"
+        bo["observed_attribute_writes_of_pseudoinverse"] = {c: a for c, a in writes.items() if a}
+        bo["observed_dispatch"] = {r[0]: list(r[1:]) for r in rows}
+        bo["observed_family"] = fam
+        bo["expected"] = "pseudoinverse() writes no instance attribute on any class; suppliers as in Core/C04Homog.implOf"
+
+
 def run(ctx):
-    common.prepare_lean(ctx, PROP, IMPORTS, THEOREMS)
+    generated(ctx)
+    if ctx.broken_obligations:
+        # what the model assumes of the live classes (who supplies pseudoinverse, that it keeps no state on the
+        # instance) no longer holds: audit what still builds, then let the oracle search for a history that shows it
+        common.prepare_lean(ctx, PROP, IMPORTS[:1], [t for t in THEOREMS if t not in GEN_THEOREMS])
+    else:
+        common.prepare_lean(ctx, PROP, IMPORTS, THEOREMS,
+                            targets=["MenpoModel.Props.C04", "MenpoModel.Drive.C04", "MenpoModel.GenProps.C04"])
     ctx.trusted += ["np.linalg.inv contract A·B = 1 (round trips re-check it on every case)",
-                    "truncated-SVD solve of the TPS system = (L^-1)^T·Y above the singular-value floor "
-                    "(checked exact solve in the model; interpolation re-checked on every case)",
-                    "radial function values taken from menpo.transform.rbf (theorems hold for every radial function)"]
+                    "np.linalg.svd contract U·diag(s)·Vh = L, orthonormal factors, sorted s (re-checked on every generated "
+                    "spline system; the coded solve is derived from it: truncSVD_kept / truncSVD_full)",
+                    "radial function values taken from menpo.transform.rbf (theorems hold for every radial function)",
+                    "scipy.spatial.Delaunay for PWA sources that are not meshes (the model receives the trilist the object holds)",
+                    "harness/extract_c04.py: MRO walk and attribute-write measurement on live objects"]
     rng = ctx.rng
-    plan = [("hom", ctx.n(720, 4800)), ("tcoords", ctx.n(24, 200)), ("pwa", ctx.n(120, 800)), ("tps", ctx.n(60, 400))]
+    plan = [("hom", ctx.n(720, 4800)), ("tcoords", ctx.n(24, 200)), ("pwa", ctx.n(120, 800)), ("tps", ctx.n(60, 400)),
+            ("homops", ctx.n(240, 1680)), ("pwaops", ctx.n(40, 280)), ("tpsops", ctx.n(24, 160)),
+            ("pwax", ctx.n(40, 280))]
     lines, pend = [], {}
     n = 0
     for kind, cnt in plan:
@@ -923,8 +2004,14 @@ def run(ctx):
             n += 1
             done += 1
             small = {kk: r[kk] for kk in r if kk in ("kind", "cls", "d", "shape", "kernel")}
+            if "ops" in r:
+                small["ops"] = [o[0] for o in r["ops"]]
             ctx.case(sig(r), nontrivial=nontrivial(r), sample=small if done == 1 else None)
+    import time
+    t0 = time.time()
     model = common.run_driver(PROP, lines)
+    ctx.notes["driver_seconds"] = round(time.time() - t0, 1)
+    ctx.notes["driver_lines"] = len(lines)
     compare(ctx, pend, model)
     return ctx.finish(search)
 
